@@ -15,7 +15,16 @@
      W4 extract_all_flags, subset_flags, status_own_partial, subset_ids_reset, subset_statuses
      W5 wait_one_inv            (intermediate invariant: mid_inv, extract_mid_inv)
      W6 wait_subset_frame_partial, wait_nreqs, wait_completed_gone
-     W7 wait_events_put, wait_events_get *)
+     W7 wait_events_put, wait_events_get
+     Examples on a concrete state (w_xs3: two puts and a get on a 4x5x6 variable)
+
+   Notes
+   * W2-W3, W5-W7 cover every path of extract_reqs (n < 0, the three shortcuts, the subset path).
+   * The subset-path theorems of W4 need `no_shortcut` and (statuses <> NULL or n <> nreqs): on a
+     shortcut path req_ids is not read at all and status pointers are bound in queue order
+     (Example status_own_shortcut_counterexample), hence `status_own_partial`.
+   * Success of the subset path implies that every non-NULL id names a pending request and occurs
+     once (subset_ids_pending). *)
 From Pnc Require Import NbSpec Proofs_Disk Proofs_Lists.
 Require Import Lia ZArith List Bool ZifyBool Zquot.
 Import ListNotations.
@@ -249,3 +258,2096 @@ Proof.
   intros x. rewrite Zrem_even. destruct (Z.even x) eqn:E; [reflexivity|].
   destruct x; [discriminate E|reflexivity|reflexivity].
 Qed.
+
+(* ====================================================================== *)
+(* 1. lead_same, layouts                                                   *)
+(* ====================================================================== *)
+(* extract_reqs changes only l_to_free, l_status, l_nonlead_off of a lead *)
+Definition lead_same (l l' : lead) : Prop :=
+  l_id l = l_id l' /\ l_geom l = l_geom l' /\ l_stride l = l_stride l' /\
+  l_nonlead_num l = l_nonlead_num l' /\ l_xaddr l = l_xaddr l' /\ l_nelems l = l_nelems l' /\
+  l_tag l = l_tag l' /\ l_orig l = l_orig l' /\ l_swapbuf l = l_swapbuf l' /\
+  l_abuf_index l = l_abuf_index l' /\ l_max_rec l = l_max_rec l'.
+
+Lemma lead_same_refl : forall l, lead_same l l.
+Proof. intros l. unfold lead_same. repeat split; reflexivity. Qed.
+
+Lemma lead_same_trans : forall a b c, lead_same a b -> lead_same b c -> lead_same a c.
+Proof.
+  intros a b c (H1 & H2 & H3 & H4 & H5 & H6 & H7 & H8 & H9 & H10 & H11)
+               (G1 & G2 & G3 & G4 & G5 & G6 & G7 & G8 & G9 & G10 & G11).
+  unfold lead_same. repeat split; etransitivity; eassumption.
+Qed.
+
+Lemma lead_same_set_flag : forall l tf stt, lead_same l (l_set_flag l tf stt).
+Proof. intros l tf stt. unfold lead_same. cbn. repeat split; reflexivity. Qed.
+
+Lemma lead_same_set_off : forall l k, lead_same l (l_set_off l k).
+Proof. intros l k. unfold lead_same. cbn. repeat split; reflexivity. Qed.
+
+Lemma lead_same_id : forall l l', lead_same l l' -> l_id l = l_id l'.
+Proof. intros l l' H. apply H. Qed.
+
+Lemma F2_same_ids : forall (R : lead -> lead -> Prop) a b,
+  (forall x y, R x y -> l_id x = l_id y) -> Forall2 R a b -> map l_id a = map l_id b.
+Proof.
+  intros R a b HR H. induction H as [|x y a b Hxy H IH]; [reflexivity|].
+  cbn [map]. rewrite (HR _ _ Hxy), IH. reflexivity.
+Qed.
+
+(* the non-lead entries without their back pointer *)
+Definition req_core (q : req) := (r_start q, r_count q, r_nelems q, r_xaddr q).
+
+(* lead_wf with the slice as an argument *)
+Definition lead_wf_seg (isput : bool) (l : lead) (sl : list req) : Prop :=
+  Z.even (l_id l) = isput /\ 0 <= l_id l /\
+  Forall (fun q => areq_wf (mkareq q l 0 0)) sl /\
+  flat_map (fun q => areq_pairs (mkareq q l 0 0)) sl = lead_pairs l.
+
+Lemma lead_wf_is_seg : forall isput reqs l, lead_wf isput reqs l = lead_wf_seg isput l (lead_reqs reqs l).
+Proof. reflexivity. Qed.
+
+Lemma areq_wf_lead_indep : forall q q' l l' s e s' e',
+  req_core q = req_core q' -> l_geom l = l_geom l' -> l_stride l = l_stride l' ->
+  areq_wf (mkareq q l s e) -> areq_wf (mkareq q' l' s' e').
+Proof.
+  intros q q' l l' s e s' e' Hc Hg Hs H. unfold req_core in Hc. inversion Hc as [[E1 E2 E3 E4]].
+  unfold areq_wf, req_stride in *. cbn [a_lead a_req] in *.
+  rewrite <- Hg, <- Hs, <- E1, <- E2, <- E3. exact H.
+Qed.
+
+Lemma areq_pairs_lead_indep : forall q q' l l' s e s' e',
+  req_core q = req_core q' -> l_geom l = l_geom l' -> l_stride l = l_stride l' ->
+  areq_pairs (mkareq q l s e) = areq_pairs (mkareq q' l' s' e').
+Proof.
+  intros q q' l l' s e s' e' Hc Hg Hs. unfold req_core in Hc. inversion Hc as [[E1 E2 E3 E4]].
+  unfold areq_pairs, req_stride. cbn [a_lead a_req].
+  rewrite <- Hg, <- Hs, <- E1, <- E2, <- E4. reflexivity.
+Qed.
+
+Lemma lead_pairs_same : forall l l', lead_same l l' -> lead_pairs l = lead_pairs l'.
+Proof.
+  intros l l' (H1 & H2 & H3 & H4 & H5 & H6 & H7 & H8 & H9). unfold lead_pairs.
+  rewrite H2, H8, H5. reflexivity.
+Qed.
+
+Lemma lead_wf_seg_indep : forall isput l l' sl sl',
+  lead_same l l' -> map req_core sl = map req_core sl' ->
+  lead_wf_seg isput l sl -> lead_wf_seg isput l' sl'.
+Proof.
+  intros isput l l' sl sl' Hs Hc (He & Hid & Hwf & Hp).
+  pose proof Hs as (H1 & H2 & H3 & _).
+  unfold lead_wf_seg. rewrite <- H1. split; [exact He|]. split; [exact Hid|].
+  rewrite <- (lead_pairs_same _ _ Hs), <- Hp. clear Hp.
+  revert sl' Hc Hwf. induction sl as [|q sl IH]; intros sl' Hc Hwf; destruct sl' as [|q' sl']; try discriminate Hc.
+  - split; [constructor|reflexivity].
+  - cbn [map] in Hc.
+    pose proof (f_equal (fun x => hd (req_core q) x) Hc) as Hq. cbn [hd] in Hq.
+    pose proof (f_equal (@tl _) Hc) as Hrest. cbn [tl] in Hrest.
+    inversion Hwf as [|q0 sl0 Hwq Hwr]; subst.
+    destruct (IH sl' Hrest Hwr) as (IH1 & IH2). split.
+    + constructor; [|exact IH1]. eapply areq_wf_lead_indep; [exact Hq|exact H2|exact H3|exact Hwq].
+    + cbn [flat_map]. rewrite IH2. f_equal. symmetry.
+      apply areq_pairs_lead_indep; assumption.
+Qed.
+
+(* `lay skip leads segs k i` : the leads that are not skipped own consecutive segments starting
+   at offset k, and the entries of a segment point to the index (i + position) of their lead;
+   skipped leads own nothing.  The queue is  pre ++ concat segs  with Zlen pre = k. *)
+Fixpoint lay (skip : lead -> bool) (leads : list lead) (segs : list (list req)) (k i : Z) : Prop :=
+  match leads, segs with
+  | [], [] => True
+  | l :: r, sl :: ss =>
+      if skip l then sl = [] /\ lay skip r ss k (i + 1)
+      else l_nonlead_off l = k /\ l_nonlead_num l = Zlen sl /\ sl <> [] /\
+           Forall (fun q => r_lead_off q = i) sl /\ lay skip r ss (k + Zlen sl) (i + 1)
+  | _, _ => False
+  end.
+Definition noskip (l : lead) : bool := false.
+
+Lemma slices_lay : forall leads reqs pre rest i,
+  reqs = pre ++ rest -> slices_ok leads reqs (Zlen pre) i ->
+  exists segs, rest = concat segs /\ lay noskip leads segs (Zlen pre) i.
+Proof.
+  induction leads as [|l leads IH]; intros reqs pre rest i Hr H; cbn [slices_ok] in H.
+  - exists []. split; [|exact I]. cbn [concat]. subst reqs. rewrite Proofs_Disk.Zlen_app in H.
+    apply Proofs_Disk.Zlen_zero_nil. lia.
+  - destruct H as (Hoff & Hpos & Hle & Hall & Hrest).
+    set (n := l_nonlead_num l) in *.
+    pose proof (w_zfirstn_zskipn _ n rest) as Hsplit.
+    assert (Hlen : Zlen (zfirstn n rest) = n).
+    { apply w_Zlen_zfirstn. subst reqs. rewrite Proofs_Disk.Zlen_app in Hle. lia. }
+    assert (Hsl : slice reqs (Zlen pre) n = zfirstn n rest).
+    { subst reqs. unfold slice. rewrite w_zskipn_app_exact. reflexivity. }
+    destruct (IH reqs (pre ++ zfirstn n rest) (zskipn n rest) (i + 1)) as (segs & Hc & Hl).
+    + subst reqs. rewrite <- app_assoc, Hsplit. reflexivity.
+    + rewrite Proofs_Disk.Zlen_app, Hlen. exact Hrest.
+    + exists (zfirstn n rest :: segs). split.
+      * cbn [concat]. rewrite <- Hc. symmetry. exact Hsplit.
+      * cbn [lay]. unfold noskip at 1. cbv iota.
+        split; [exact Hoff|]. split; [fold n; symmetry; exact Hlen|].
+        split; [intros E; rewrite E, Proofs_Disk.Zlen_nil in Hlen; lia|].
+        split; [rewrite <- Hsl; exact Hall|].
+        rewrite Proofs_Disk.Zlen_app in Hl. exact Hl.
+Qed.
+
+Lemma lay_slices_ok : forall skip leads segs pre i,
+  Forall (fun l => skip l = false) leads -> lay skip leads segs (Zlen pre) i ->
+  slices_ok leads (pre ++ concat segs) (Zlen pre) i.
+Proof.
+  intros skip. induction leads as [|l leads IH]; intros segs pre i Hsk H; destruct segs as [|sl ss]; cbn [lay] in H; try contradiction.
+  - cbn [slices_ok concat]. rewrite app_nil_r. reflexivity.
+  - inversion Hsk as [|l0 r0 Hl Hr]; subst. rewrite Hl in H.
+    destruct H as (Hoff & Hnum & Hne & Hfa & Hrest).
+    cbn [slices_ok concat]. split; [exact Hoff|].
+    pose proof (w_Zlen_pos _ _ Hne) as Hpos.
+    split; [lia|]. split.
+    { rewrite !Proofs_Disk.Zlen_app. pose proof (Proofs_Disk.Zlen_nonneg (concat ss)). lia. }
+    split.
+    { rewrite Hnum, w_slice_app. exact Hfa. }
+    specialize (IH ss (pre ++ sl) (i + 1) Hr). rewrite Proofs_Disk.Zlen_app, <- app_assoc in IH.
+    rewrite Hnum. apply IH. exact Hrest.
+Qed.
+
+(* the slice of a lead that is not skipped is its segment *)
+Lemma lay_lead_reqs : forall skip leads segs pre i,
+  lay skip leads segs (Zlen pre) i ->
+  Forall2 (fun l sl => skip l = false -> lead_reqs (pre ++ concat segs) l = sl) leads segs.
+Proof.
+  intros skip. induction leads as [|l leads IH]; intros segs pre i H; destruct segs as [|sl ss]; cbn [lay] in H; try contradiction.
+  - constructor.
+  - destruct (skip l) eqn:Hl.
+    + destruct H as (Hsl & Hrest). subst sl. constructor; [intros Hf; congruence|].
+      cbn [concat app]. eapply IH. exact Hrest.
+    + destruct H as (Hoff & Hnum & Hne & Hfa & Hrest). constructor.
+      * intros _. unfold lead_reqs. rewrite Hoff, Hnum. cbn [concat]. apply w_slice_app.
+      * specialize (IH ss (pre ++ sl) (i + 1)). rewrite Proofs_Disk.Zlen_app, <- app_assoc in IH.
+        cbn [concat]. apply IH. exact Hrest.
+Qed.
+
+(* the entries of the segment of the i-th lead point to i *)
+Lemma lay_lead_off : forall skip leads segs (pre2 leads2 : list lead) k (R : lead -> lead -> Prop),
+  lay skip leads segs k (Zlen pre2) -> Forall2 R leads leads2 ->
+  Forall2 (fun sl l2 => Forall (fun q => znth (pre2 ++ leads2) (r_lead_off q) dummy_lead = l2) sl) segs leads2.
+Proof.
+  intros skip. induction leads as [|l leads IH]; intros segs pre2 leads2 k R H HR;
+    destruct segs as [|sl ss]; cbn [lay] in H; try contradiction;
+    inversion HR as [|x y a b Hxy Hab]; subst.
+  - constructor.
+  - assert (Hrest : lay skip leads ss (if skip l then k else k + Zlen sl) (Zlen (pre2 ++ [y]))).
+    { rewrite Proofs_Disk.Zlen_app. change (Zlen [y]) with 1. destruct (skip l); apply H. }
+    specialize (IH ss (pre2 ++ [y]) b _ R Hrest Hab). rewrite <- app_assoc in IH. cbn [app] in IH.
+    constructor; [|exact IH].
+    destruct (skip l).
+    + destruct H as (-> & _). constructor.
+    + destruct H as (_ & _ & _ & Hfa & _). eapply Forall_impl; [|exact Hfa].
+      intros q Hq. cbn beta in Hq. rewrite Hq. apply w_znth_app_exact.
+Qed.
+
+Lemma lay_ext : forall skip skip' leads leads' segs k i,
+  Forall2 (fun l l' => skip l = skip' l' /\
+                       (skip l = false -> l_nonlead_off l = l_nonlead_off l' /\ l_nonlead_num l = l_nonlead_num l'))
+          leads leads' ->
+  lay skip leads segs k i -> lay skip' leads' segs k i.
+Proof.
+  intros skip skip' leads leads' segs k i H. revert segs k i.
+  induction H as [|l l' leads leads' (Hs & Ho) H IH]; intros segs k i Hl; destruct segs as [|sl ss]; cbn [lay] in *; try contradiction.
+  - exact I.
+  - rewrite <- Hs. destruct (skip l).
+    + destruct Hl as (E & Hl). split; [exact E|apply IH; exact Hl].
+    + destruct (Ho eq_refl) as (Ho1 & Ho2). destruct Hl as (Hoff & Hnum & Hne & Hfa & Hrest).
+      rewrite <- Ho1, <- Ho2. repeat split; try assumption. apply IH. exact Hrest.
+Qed.
+
+Lemma lay_len : forall skip leads segs k i, lay skip leads segs k i -> Zlen leads = Zlen segs.
+Proof.
+  intros skip. induction leads as [|l leads IH]; intros segs k i H; destruct segs as [|sl ss]; cbn [lay] in H; try contradiction.
+  - reflexivity.
+  - rewrite !Proofs_Disk.Zlen_cons. destruct (skip l).
+    + destruct H as (_ & H). rewrite (IH _ _ _ H). reflexivity.
+    + destruct H as (_ & _ & _ & _ & H). rewrite (IH _ _ _ H). reflexivity.
+Qed.
+
+Lemma lay_all_skipped : forall skip leads k i,
+  Forall (fun l => skip l = true) leads -> lay skip leads (map (fun _ => []) leads) k i.
+Proof.
+  intros skip leads k i H. revert i. induction H as [|l leads Hl H IH]; intros i; cbn [map lay]; [exact I|].
+  rewrite Hl. split; [reflexivity|apply IH].
+Qed.
+
+Lemma concat_map_nil : forall A B (l : list A), concat (map (fun _ => @nil B) l) = [].
+Proof. intros A B l. induction l as [|x l IH]; [reflexivity|exact IH]. Qed.
+
+Lemma lay_nil_leads : forall skip segs k i, lay skip [] segs k i -> segs = [].
+Proof. intros skip segs k i H. destruct segs; [reflexivity|contradiction]. Qed.
+
+(* queue_inv gives a layout; the whole queue is the concatenation of the slices *)
+Lemma queue_lay : forall isput maxid leads reqs, queue_inv isput maxid leads reqs ->
+  exists segs, reqs = concat segs /\ lay noskip leads segs 0 0 /\
+               Forall2 (fun l sl => lead_reqs reqs l = sl) leads segs.
+Proof.
+  intros isput maxid leads reqs (_ & _ & Hs & _ & _).
+  destruct (slices_lay leads reqs [] reqs 0 eq_refl Hs) as (segs & Hc & Hl).
+  exists segs. split; [exact Hc|]. split; [exact Hl|].
+  pose proof (lay_lead_reqs noskip leads segs [] 0 Hl) as HF. cbn [app] in HF. rewrite <- Hc in HF.
+  eapply w_F2_impl; [|exact HF]. intros l sl _ _ Hx. apply Hx. reflexivity.
+Qed.
+
+(* ====================================================================== *)
+(* 2. flagging: closed forms                                               *)
+(* ====================================================================== *)
+Definition flagged_of (l l2 : lead) : Prop := exists stt, l2 = l_set_flag l true stt.
+
+Lemma flag_all_F2 : forall leads, Forall2 flagged_of leads (flag_all leads).
+Proof.
+  intros leads. unfold flag_all. apply w_F2_map_r. intros l _. exists (l_status l). reflexivity.
+Qed.
+
+Lemma flag_all_status_F2 : forall leads i, Forall2 flagged_of leads (flag_all_status leads i).
+Proof.
+  induction leads as [|l leads IH]; intros i; cbn [flag_all_status]; constructor.
+  - exists (Some i). reflexivity.
+  - apply IH.
+Qed.
+
+Lemma flag_all_status_nth : forall leads i l' k,
+  In l' (flag_all_status leads i) -> l_status l' = Some k ->
+  i <= k < i + Zlen leads /\ l_id (znth leads (k - i) dummy_lead) = l_id l'.
+Proof.
+  induction leads as [|l leads IH]; intros i l' k Hin Hst; cbn [flag_all_status] in Hin; [destruct Hin|].
+  rewrite Proofs_Disk.Zlen_cons. pose proof (Proofs_Disk.Zlen_nonneg leads) as Hn.
+  destruct Hin as [<-|Hin].
+  - cbn in Hst. inversion Hst; subst k. split; [lia|].
+    replace (i - i) with 0 by lia. reflexivity.
+  - destruct (IH (i + 1) l' k Hin Hst) as (Hk & Hid). split; [lia|].
+    cbn [znth]. destruct (k - i =? 0) eqn:E; [lia|].
+    replace (k - i - 1) with (k - (i + 1)) by lia. exact Hid.
+Qed.
+
+(* one step of the first loop, on one lead *)
+Definition flag1 (x : Z) (stt : option Z) (l : lead) : lead :=
+  if negb (l_to_free l) && (l_id l =? x) then l_set_flag l true stt else l.
+
+Lemma flag1_id : forall x stt l, l_id (flag1 x stt l) = l_id l.
+Proof. intros x stt l. unfold flag1. destruct (negb (l_to_free l) && (l_id l =? x)); reflexivity. Qed.
+
+Lemma map_flag1_other : forall x stt r, (forall l0, In l0 r -> l_id l0 <> x) -> map (flag1 x stt) r = r.
+Proof.
+  intros x stt r H. induction r as [|l r IH]; [reflexivity|]. cbn [map].
+  rewrite IH by (intros l0 Hl0; apply H; right; exact Hl0).
+  unfold flag1. assert (Hl : l_id l <> x) by (apply H; left; reflexivity).
+  destruct (l_id l =? x) eqn:E; [lia|]. rewrite andb_false_r. reflexivity.
+Qed.
+
+Lemma flag_first_map : forall ll x stt ll' n,
+  NoDup (map l_id ll) -> flag_first ll x stt = Some (ll', n) ->
+  ll' = map (flag1 x stt) ll /\
+  exists l, In l ll /\ l_to_free l = false /\ l_id l = x /\ n = l_nonlead_num l.
+Proof.
+  induction ll as [|l r IH]; intros x stt ll' n Hnd H; cbn [flag_first] in H; [discriminate|].
+  cbn [map] in Hnd. apply NoDup_cons_iff in Hnd. destruct Hnd as [Hl Hnd].
+  destruct (negb (l_to_free l) && (l_id l =? x)) eqn:E.
+  - inversion H; subst ll' n. clear H.
+    assert (Hid : l_id l = x) by lia. assert (Hf : l_to_free l = false) by (destruct (l_to_free l); [discriminate|reflexivity]).
+    split.
+    + cbn [map]. unfold flag1 at 1. rewrite E. f_equal. symmetry. apply map_flag1_other.
+      intros l0 Hl0 E0. apply Hl. rewrite Hid, <- E0. apply in_map. exact Hl0.
+    + exists l. split; [left; reflexivity|]. repeat split; assumption.
+  - destruct (flag_first r x stt) as [[r' n']|] eqn:Er; [|discriminate].
+    inversion H; subst ll' n. clear H.
+    destruct (IH x stt r' n' Hnd Er) as (Hm & l0 & Hin & Hrest).
+    split.
+    + cbn [map]. unfold flag1 at 1. rewrite E. rewrite <- Hm. reflexivity.
+    + exists l0. split; [right; exact Hin|exact Hrest].
+Qed.
+
+(* the first loop of the subset path restricted to one queue: sel picks the ids of the queue *)
+Fixpoint mark_list (sel : Z -> bool) (ids : list Z) (i : Z) (hs : bool) (ll : list lead)
+  : option (list lead * Z * Z) :=
+  match ids with
+  | [] => Some (ll, 0, 0)
+  | x :: r =>
+      if sel x then
+        match flag_first ll x (if hs then Some i else None) with
+        | Some (ll', n) =>
+            match mark_list sel r (i + 1) hs ll' with
+            | Some (l2, c, s) => Some (l2, c + 1, s + n)
+            | None => None
+            end
+        | None => None
+        end
+      else mark_list sel r (i + 1) hs ll
+  end.
+
+Fixpoint mark_lead (sel : Z -> bool) (ids : list Z) (i : Z) (hs : bool) (l : lead) : lead :=
+  match ids with
+  | [] => l
+  | x :: r => mark_lead sel r (i + 1) hs (if sel x then flag1 x (if hs then Some i else None) l else l)
+  end.
+
+Definition selp (x : Z) : bool := negb (x =? NC_REQ_NULL) && (Z.rem x 2 =? 0).
+Definition selg (x : Z) : bool := negb (x =? NC_REQ_NULL) && negb (Z.rem x 2 =? 0).
+
+Lemma mark_list_map : forall sel ids i hs ll ll1 c s,
+  NoDup (map l_id ll) -> mark_list sel ids i hs ll = Some (ll1, c, s) ->
+  ll1 = map (mark_lead sel ids i hs) ll.
+Proof.
+  intros sel. induction ids as [|x r IH]; intros i hs ll ll1 c s Hnd H; cbn [mark_list] in H.
+  - inversion H; subst. cbn [mark_lead]. symmetry. apply map_id.
+  - destruct (sel x) eqn:Hsel.
+    + destruct (flag_first ll x (if hs then Some i else None)) as [[ll' n]|] eqn:Ef; [|discriminate].
+      destruct (mark_list sel r (i + 1) hs ll') as [[[l2 c2] s2]|] eqn:Em; [|discriminate].
+      inversion H; subst ll1 c s. clear H.
+      destruct (flag_first_map _ _ _ _ _ Hnd Ef) as (Hm & _).
+      assert (Hnd' : NoDup (map l_id ll')).
+      { rewrite Hm, map_map. erewrite map_ext; [exact Hnd|]. intros a. apply flag1_id. }
+      rewrite (IH _ _ _ _ _ _ Hnd' Em), Hm, map_map.
+      apply map_ext. intros a. cbn [mark_lead]. rewrite Hsel. reflexivity.
+    + rewrite (IH _ _ _ _ _ _ Hnd H). apply map_ext. intros a. cbn [mark_lead]. rewrite Hsel. reflexivity.
+Qed.
+
+(* ---- mark_lead on one lead ---- *)
+Lemma mark_lead_flagged : forall sel ids i hs l, l_to_free l = true -> mark_lead sel ids i hs l = l.
+Proof.
+  intros sel. induction ids as [|x r IH]; intros i hs l Hl; cbn [mark_lead]; [reflexivity|].
+  assert (E : (if sel x then flag1 x (if hs then Some i else None) l else l) = l).
+  { destruct (sel x); [|reflexivity]. unfold flag1. rewrite Hl. reflexivity. }
+  rewrite E. apply IH. exact Hl.
+Qed.
+
+Lemma mark_lead_shape : forall sel ids i hs l,
+  mark_lead sel ids i hs l = l \/ exists stt, mark_lead sel ids i hs l = l_set_flag l true stt.
+Proof.
+  intros sel. induction ids as [|x r IH]; intros i hs l; cbn [mark_lead]; [left; reflexivity|].
+  destruct (sel x); [|apply IH]. unfold flag1.
+  destruct (negb (l_to_free l) && (l_id l =? x)); [|apply IH].
+  right. exists (if hs then Some i else None). apply mark_lead_flagged. reflexivity.
+Qed.
+
+Lemma mark_lead_same : forall sel ids i hs l, lead_same l (mark_lead sel ids i hs l).
+Proof.
+  intros sel ids i hs l. destruct (mark_lead_shape sel ids i hs l) as [->|(stt & ->)].
+  - apply lead_same_refl.
+  - apply lead_same_set_flag.
+Qed.
+
+Lemma mark_lead_off : forall sel ids i hs l, l_nonlead_off (mark_lead sel ids i hs l) = l_nonlead_off l.
+Proof.
+  intros sel ids i hs l. destruct (mark_lead_shape sel ids i hs l) as [->|(stt & ->)]; reflexivity.
+Qed.
+
+Lemma mark_lead_id : forall sel ids i hs l, l_id (mark_lead sel ids i hs l) = l_id l.
+Proof. intros. symmetry. apply lead_same_id. apply mark_lead_same. Qed.
+
+Lemma mark_lead_reqs : forall sel ids i hs reqs l, lead_reqs reqs (mark_lead sel ids i hs l) = lead_reqs reqs l.
+Proof.
+  intros. unfold lead_reqs. rewrite mark_lead_off.
+  pose proof (mark_lead_same sel ids i hs l) as (_ & _ & _ & Hn & _). rewrite <- Hn. reflexivity.
+Qed.
+
+Lemma mark_lead_to_free : forall sel ids i hs l,
+  l_to_free (mark_lead sel ids i hs l) = l_to_free l || existsb (fun x => sel x && (l_id l =? x)) ids.
+Proof.
+  intros sel. induction ids as [|x r IH]; intros i hs l; cbn [mark_lead existsb].
+  - rewrite orb_false_r. reflexivity.
+  - rewrite IH. clear IH. destruct (sel x); cbn [andb]; [|reflexivity].
+    rewrite flag1_id. unfold flag1. destruct (l_to_free l) eqn:Hf; cbn [negb andb].
+    + rewrite Hf. reflexivity.
+    + destruct (l_id l =? x); cbn [orb]; [reflexivity|]. rewrite Hf. reflexivity.
+Qed.
+
+Lemma mark_lead_nosel : forall sel ids i hs l, filter sel ids = [] -> mark_lead sel ids i hs l = l.
+Proof.
+  intros sel. induction ids as [|x r IH]; intros i hs l H; cbn [mark_lead]; [reflexivity|].
+  cbn [filter] in H. destruct (sel x); [discriminate|]. apply IH. exact H.
+Qed.
+
+(* the status pointer of a lead flagged by this loop is the slot of the position naming it *)
+Lemma mark_lead_status : forall sel ids i l k,
+  l_to_free l = false -> l_to_free (mark_lead sel ids i true l) = true ->
+  l_status (mark_lead sel ids i true l) = Some k ->
+  i <= k < i + Zlen ids /\ znth ids (k - i) NC_REQ_NULL = l_id l.
+Proof.
+  intros sel. induction ids as [|x r IH]; intros i l k Hl Hf Hst; cbn [mark_lead] in *.
+  - congruence.
+  - rewrite Proofs_Disk.Zlen_cons. pose proof (Proofs_Disk.Zlen_nonneg r) as Hn.
+    assert (Hcase : (sel x = true /\ l_id l = x /\
+                     (if sel x then flag1 x (Some i) l else l) = l_set_flag l true (Some i)) \/
+                    (if sel x then flag1 x (Some i) l else l) = l).
+    { destruct (sel x); [|right; reflexivity]. unfold flag1. rewrite Hl. cbn [negb andb].
+      destruct (l_id l =? x) eqn:E; [left|right; reflexivity]. repeat split. lia. }
+    destruct Hcase as [(Hs & Hid & E)|E]; rewrite E in *.
+    + rewrite mark_lead_flagged in Hst by reflexivity. cbn in Hst. inversion Hst; subst k.
+      split; [lia|]. replace (i - i) with 0 by lia. cbn [znth]. symmetry. exact Hid.
+    + destruct (IH (i + 1) l k Hl Hf Hst) as (Hk & Hz). split; [lia|].
+      cbn [znth]. destruct (k - i =? 0) eqn:E0; [lia|].
+      replace (k - i - 1) with (k - (i + 1)) by lia. exact Hz.
+Qed.
+
+Lemma mark_lead_status_nostat : forall sel ids i l,
+  l_to_free l = false -> l_to_free (mark_lead sel ids i false l) = true ->
+  l_status (mark_lead sel ids i false l) = None.
+Proof.
+  intros sel. induction ids as [|x r IH]; intros i l Hl Hf; cbn [mark_lead] in *.
+  - congruence.
+  - destruct (sel x); [|apply IH; assumption]. unfold flag1 in *. rewrite Hl in *. cbn [negb andb] in *.
+    destruct (l_id l =? x); [|apply IH; assumption].
+    rewrite mark_lead_flagged by reflexivity. reflexivity.
+Qed.
+
+(* ---- success of mark_list ---- *)
+Lemma mark_list_pending : forall sel ids i hs ll ll1 c s,
+  NoDup (map l_id ll) -> mark_list sel ids i hs ll = Some (ll1, c, s) ->
+  (forall x, In x ids -> sel x = true -> exists l, In l ll /\ l_id l = x /\ l_to_free l = false) /\
+  NoDup (filter sel ids) /\ c = Zlen (filter sel ids) /\
+  (Forall (fun l => 0 < l_nonlead_num l) ll -> c <= s).
+Proof.
+  intros sel. induction ids as [|x r IH]; intros i hs ll ll1 c s Hnd H; cbn [mark_list] in H.
+  - inversion H; subst. cbn [filter]. split; [intros x []|]. split; [constructor|]. split; [reflexivity|]. intros _. lia.
+  - cbn [filter]. destruct (sel x) eqn:Hsel.
+    + destruct (flag_first ll x (if hs then Some i else None)) as [[ll' n]|] eqn:Ef; [|discriminate].
+      destruct (mark_list sel r (i + 1) hs ll') as [[[l2 c2] s2]|] eqn:Em; [|discriminate].
+      inversion H; subst ll1 c s. clear H.
+      destruct (flag_first_map _ _ _ _ _ Hnd Ef) as (Hm & l & Hlin & Hlf & Hlid & Hln).
+      assert (Hnd' : NoDup (map l_id ll')).
+      { rewrite Hm, map_map. erewrite map_ext; [exact Hnd|]. intros a. apply flag1_id. }
+      destruct (IH _ _ _ _ _ _ Hnd' Em) as (Hp & Hnd2 & Hc & Hs).
+      assert (Hback : forall y, In y r -> sel y = true -> exists l0, In l0 ll /\ l_id l0 = y /\ l_to_free l0 = false /\ flag1 x (if hs then Some i else None) l0 = l0).
+      { intros y Hy Hsy. destruct (Hp y Hy Hsy) as (l0 & Hl0 & Hid0 & Hf0).
+        rewrite Hm in Hl0. apply in_map_iff in Hl0. destruct Hl0 as (l1 & E1 & Hl1).
+        unfold flag1 in E1. destruct (negb (l_to_free l1) && (l_id l1 =? x)) eqn:E.
+        - subst l0. discriminate Hf0.
+        - subst l0. exists l1. repeat split; try assumption. unfold flag1. rewrite E. reflexivity. }
+      split; [|split; [|split]].
+      * intros y [<-|Hy] Hsy.
+        -- exists l. repeat split; assumption.
+        -- destruct (Hback y Hy Hsy) as (l0 & Hl0 & Hid0 & Hf0 & _). exists l0. repeat split; assumption.
+      * constructor; [|exact Hnd2]. intros Hin. apply filter_In in Hin. destruct Hin as (Hxr & _).
+        destruct (Hback x Hxr Hsel) as (l0 & Hl0 & Hid0 & Hf0 & Hfix).
+        unfold flag1 in Hfix. rewrite Hf0 in Hfix. cbn [negb andb] in Hfix.
+        destruct (l_id l0 =? x) eqn:E; [|lia].
+        rewrite <- Hfix in Hf0. discriminate Hf0.
+      * rewrite Proofs_Disk.Zlen_cons, Hc. reflexivity.
+      * intros Hpos. assert (Hn : 0 < n).
+        { subst n. rewrite Forall_forall in Hpos. apply Hpos. exact Hlin. }
+        assert (Hpos' : Forall (fun l => 0 < l_nonlead_num l) ll').
+        { rewrite Hm. rewrite Forall_forall in *. intros l1 Hl1. apply in_map_iff in Hl1.
+          destruct Hl1 as (l0 & <- & Hl0). specialize (Hpos l0 Hl0). unfold flag1.
+          destruct (negb (l_to_free l0) && (l_id l0 =? x)); exact Hpos. }
+        specialize (Hs Hpos'). lia.
+    + destruct (IH _ _ _ _ _ _ Hnd H) as (Hp & Hnd2 & Hc & Hs).
+      split; [|split; [|split]]; try assumption.
+      intros y [<-|Hy] Hsy; [congruence|]. apply Hp; assumption.
+Qed.
+
+(* ---- ex_mark is the two one-queue loops ---- *)
+Lemma noerr_sticky : forall e, e <> NC_NOERR -> (if e =? NC_NOERR then NC_EINVAL_REQUEST else e) <> NC_NOERR.
+Proof.
+  intros e He. destruct (e =? NC_NOERR) eqn:E; [|exact He]. unfold NC_EINVAL_REQUEST, NC_NOERR. lia.
+Qed.
+
+Lemma noerr_sticky_or : forall e, (if e =? NC_NOERR then NC_EINVAL_REQUEST else e) <> NC_NOERR.
+Proof.
+  intros e. destruct (e =? NC_NOERR) eqn:E; [unfold NC_EINVAL_REQUEST, NC_NOERR; lia|lia].
+Qed.
+
+Lemma ex_mark_err_sticky : forall ids i hs pl gl stat nwl nwr nrl nrr err,
+  err <> NC_NOERR ->
+  snd (ex_mark ids i hs pl gl stat nwl nwr nrl nrr err) <> NC_NOERR.
+Proof.
+  induction ids as [|x r IH]; intros i hs pl gl stat nwl nwr nrl nrr err He; cbn [ex_mark].
+  - exact He.
+  - destruct (x =? NC_REQ_NULL); [apply IH; exact He|].
+    destruct (Z.rem x 2 =? 0).
+    + destruct (flag_first pl x (if hs then Some i else None)) as [[pl' n]|]; apply IH; [exact He|].
+      apply noerr_sticky. exact He.
+    + destruct (flag_first gl x (if hs then Some i else None)) as [[gl' n]|]; apply IH; [exact He|].
+      apply noerr_sticky. exact He.
+Qed.
+
+Lemma ex_mark_spec : forall ids i hs pl gl stat nwl nwr nrl nrr err pl1 gl1 stat1 nwl1 nwr1 nrl1 nrr1,
+  ex_mark ids i hs pl gl stat nwl nwr nrl nrr err = (pl1, gl1, stat1, nwl1, nwr1, nrl1, nrr1, NC_NOERR) ->
+  err = NC_NOERR /\
+  exists c1 s1 c2 s2,
+    mark_list selp ids i hs pl = Some (pl1, c1, s1) /\ mark_list selg ids i hs gl = Some (gl1, c2, s2) /\
+    nwl1 = nwl + c1 /\ nwr1 = nwr + s1 /\ nrl1 = nrl + c2 /\ nrr1 = nrr + s2.
+Proof.
+  induction ids as [|x r IH]; intros i hs pl gl stat nwl nwr nrl nrr err pl1 gl1 stat1 nwl1 nwr1 nrl1 nrr1 H;
+    cbn [ex_mark mark_list] in *.
+  - inversion H; subst. split; [reflexivity|]. exists 0, 0, 0, 0. repeat split; lia.
+  - unfold selp at 1, selg at 1. destruct (x =? NC_REQ_NULL) eqn:Enull; cbn [negb andb].
+    + apply IH in H. exact H.
+    + destruct (Z.rem x 2 =? 0) eqn:Epar; cbn [negb].
+      * destruct (flag_first pl x (if hs then Some i else None)) as [[pl' n]|] eqn:Ef.
+        -- apply IH in H. destruct H as (He & c1 & s1 & c2 & s2 & H1 & H2 & H3 & H4 & H5 & H6).
+           split; [exact He|]. rewrite H1. exists (c1 + 1), (s1 + n), c2, s2.
+           repeat split; try assumption; lia.
+        -- exfalso.
+           assert (Hne : (if err =? NC_NOERR then NC_EINVAL_REQUEST else err) <> NC_NOERR).
+           { destruct (err =? NC_NOERR) eqn:E; [unfold NC_EINVAL_REQUEST, NC_NOERR; lia|lia]. }
+           pose proof (ex_mark_err_sticky r (i + 1) hs pl gl
+                         (if hs then zupd stat i NC_EINVAL_REQUEST else stat) nwl nwr nrl nrr _ Hne) as Hs.
+           rewrite H in Hs. apply Hs. reflexivity.
+      * destruct (flag_first gl x (if hs then Some i else None)) as [[gl' n]|] eqn:Ef.
+        -- apply IH in H. destruct H as (He & c1 & s1 & c2 & s2 & H1 & H2 & H3 & H4 & H5 & H6).
+           split; [exact He|]. rewrite H2. exists c1, s1, (c2 + 1), (s2 + n).
+           repeat split; try assumption; lia.
+        -- exfalso.
+           assert (Hne : (if err =? NC_NOERR then NC_EINVAL_REQUEST else err) <> NC_NOERR).
+           { destruct (err =? NC_NOERR) eqn:E; [unfold NC_EINVAL_REQUEST, NC_NOERR; lia|lia]. }
+           pose proof (ex_mark_err_sticky r (i + 1) hs pl gl
+                         (if hs then zupd stat i NC_EINVAL_REQUEST else stat) nwl nwr nrl nrr _ Hne) as Hs.
+           rewrite H in Hs. apply Hs. reflexivity.
+Qed.
+
+(* statuses written by a successful first loop *)
+Lemma ex_mark_stat : forall ids i pl gl stat nwl nwr nrl nrr err pl1 gl1 stat1 nwl1 nwr1 nrl1 nrr1,
+  ex_mark ids i true pl gl stat nwl nwr nrl nrr err = (pl1, gl1, stat1, nwl1, nwr1, nrl1, nrr1, NC_NOERR) ->
+  0 <= i ->
+  Zlen stat1 = Zlen stat /\
+  (forall k, i <= k < i + Zlen ids -> k < Zlen stat -> znth stat1 k 0 = NC_NOERR) /\
+  (forall k, k < i -> znth stat1 k 0 = znth stat k 0).
+Proof.
+  induction ids as [|x r IH]; intros i pl gl stat nwl nwr nrl nrr err pl1 gl1 stat1 nwl1 nwr1 nrl1 nrr1 H Hi;
+    cbn [ex_mark] in H.
+  - inversion H; subst. split; [reflexivity|]. split; [|reflexivity].
+    intros k Hk. rewrite Proofs_Disk.Zlen_nil in Hk. lia.
+  - rewrite Proofs_Disk.Zlen_cons. pose proof (Proofs_Disk.Zlen_nonneg r) as Hn.
+    assert (Hgood : forall pl' gl' a b c d e,
+              ex_mark r (i + 1) true pl' gl' (zupd stat i NC_NOERR) a b c d e
+                = (pl1, gl1, stat1, nwl1, nwr1, nrl1, nrr1, NC_NOERR) ->
+              Zlen stat1 = Zlen stat /\
+              (forall k, i <= k < i + (Zlen r + 1) -> k < Zlen stat -> znth stat1 k 0 = NC_NOERR) /\
+              (forall k, k < i -> znth stat1 k 0 = znth stat k 0)).
+    { intros pl' gl' a b c d e H'. apply IH in H'; [|lia]. destruct H' as (Hl & Hin & Hout).
+      rewrite w_Zlen_zupd in Hl, Hin. split; [exact Hl|]. split.
+      - intros k Hk Hks. destruct (Z.eq_dec k i) as [->|Hne].
+        + rewrite Hout by lia. apply w_znth_zupd_same. lia.
+        + apply Hin; lia.
+      - intros k Hk. rewrite Hout by lia. apply w_znth_zupd_other. lia. }
+    assert (Hbad : forall e0, e0 <> NC_NOERR ->
+              ex_mark r (i + 1) true pl gl (zupd stat i NC_EINVAL_REQUEST) nwl nwr nrl nrr e0
+                = (pl1, gl1, stat1, nwl1, nwr1, nrl1, nrr1, NC_NOERR) -> False).
+    { intros e0 He0 H'. pose proof (ex_mark_err_sticky r (i + 1) true pl gl (zupd stat i NC_EINVAL_REQUEST) nwl nwr nrl nrr e0 He0) as Hs.
+      rewrite H' in Hs. apply Hs. reflexivity. }
+    destruct (x =? NC_REQ_NULL); [eapply Hgood; exact H|].
+    destruct (Z.rem x 2 =? 0).
+    + destruct (flag_first pl x (Some i)) as [[pl' n]|]; [eapply Hgood; exact H|].
+      exfalso. eapply Hbad; [|exact H]. apply noerr_sticky_or.
+    + destruct (flag_first gl x (Some i)) as [[gl' n]|]; [eapply Hgood; exact H|].
+      exfalso. eapply Hbad; [|exact H]. apply noerr_sticky_or.
+Qed.
+
+(* ---- the second loop ---- *)
+Definition copy_one (sel : Z -> bool) (ll : list lead) (reqs : list req) (x : Z) : list req :=
+  if sel x then match find_flagged ll x with
+                | Some l => slice reqs (l_nonlead_off l) (l_nonlead_num l)
+                | None => []
+                end
+  else [].
+Definition reset_one (pl gl : list lead) (x : Z) : Z :=
+  if x =? NC_REQ_NULL then x
+  else if Z.rem x 2 =? 0 then match find_flagged pl x with Some _ => NC_REQ_NULL | None => x end
+  else match find_flagged gl x with Some _ => NC_REQ_NULL | None => x end.
+
+Lemma ex_copy_spec : forall ids pl gl pr gr,
+  ex_copy ids pl gl pr gr =
+  (map (reset_one pl gl) ids, flat_map (copy_one selp pl pr) ids, flat_map (copy_one selg gl gr) ids).
+Proof.
+  induction ids as [|x r IH]; intros pl gl pr gr; cbn [ex_copy map flat_map]; [reflexivity|].
+  rewrite IH.
+  set (T1 := map (reset_one pl gl) r). set (T2 := flat_map (copy_one selp pl pr) r).
+  set (T3 := flat_map (copy_one selg gl gr) r).
+  unfold copy_one, reset_one, selp, selg.
+  destruct (x =? NC_REQ_NULL); cbn [negb andb app]; [reflexivity|].
+  destruct (Z.rem x 2 =? 0); cbn [negb app].
+  - destruct (find_flagged pl x); reflexivity.
+  - destruct (find_flagged gl x); reflexivity.
+Qed.
+
+Lemma find_flagged_In : forall ll l, NoDup (map l_id ll) -> In l ll -> l_to_free l = true ->
+  find_flagged ll (l_id l) = Some l.
+Proof.
+  induction ll as [|l0 r IH]; intros l Hnd Hin Hf; [destruct Hin|].
+  cbn [map] in Hnd. apply NoDup_cons_iff in Hnd. destruct Hnd as [Hl0 Hnd]. cbn [find_flagged].
+  destruct Hin as [->|Hin].
+  - rewrite Hf, Z.eqb_refl. reflexivity.
+  - destruct (l_to_free l0 && (l_id l0 =? l_id l)) eqn:E.
+    + exfalso. apply Hl0. assert (E' : l_id l0 = l_id l) by lia. rewrite E'. apply in_map. exact Hin.
+    + apply IH; assumption.
+Qed.
+
+Lemma find_flagged_Some : forall ll x l, find_flagged ll x = Some l -> In l ll /\ l_to_free l = true /\ l_id l = x.
+Proof.
+  induction ll as [|l0 r IH]; intros x l H; cbn [find_flagged] in H; [discriminate|].
+  destruct (l_to_free l0 && (l_id l0 =? x)) eqn:E.
+  - inversion H; subst l0. split; [left; reflexivity|]. split; [|lia].
+    destruct (l_to_free l); [reflexivity|discriminate].
+  - destruct (IH x l H) as (Hin & Hrest). split; [right; exact Hin|exact Hrest].
+Qed.
+
+(* ====================================================================== *)
+(* 3. coalesce_nonlead, compact_leads on layouts                           *)
+(* ====================================================================== *)
+Fixpoint kept_segs (leads : list lead) (segs : list (list req)) : list (list req) :=
+  match leads, segs with
+  | l :: r, sl :: ss => (if l_to_free l then [] else sl) :: kept_segs r ss
+  | _, _ => []
+  end.
+
+Definition co_rel (l l' : lead) : Prop := if l_to_free l then l' = l else exists k, l' = l_set_off l k.
+
+Lemma co_rel_same : forall l l', co_rel l l' ->
+  lead_same l l' /\ l_to_free l' = l_to_free l /\ l_status l' = l_status l.
+Proof.
+  intros l l' H. unfold co_rel in H. destruct (l_to_free l) eqn:Hf.
+  - subst l'. split; [apply lead_same_refl|]. split; [exact Hf|reflexivity].
+  - destruct H as (k & ->). split; [apply lead_same_set_off|]. split; [exact Hf|reflexivity].
+Qed.
+
+Lemma coalesce_lay : forall leads segs reqs kold i k0 ls rs,
+  lay noskip leads segs kold i ->
+  Forall2 (fun l sl => lead_reqs reqs l = sl) leads segs ->
+  coalesce_nonlead leads reqs k0 = (ls, rs) ->
+  rs = concat (kept_segs leads segs) /\ lay l_to_free ls (kept_segs leads segs) k0 i /\
+  Forall2 co_rel leads ls.
+Proof.
+  induction leads as [|l leads IH]; intros segs reqs kold i k0 ls rs Hl HF Hc;
+    destruct segs as [|sl ss]; cbn [lay] in Hl; try contradiction; cbn [coalesce_nonlead] in Hc.
+  - inversion Hc; subst. cbn [kept_segs concat lay]. repeat split. constructor.
+  - unfold noskip at 1 in Hl. cbv iota in Hl. destruct Hl as (Hoff & Hnum & Hne & Hfa & Hrest).
+    inversion HF as [|x y a b Hxy Hab]; subst. cbn [kept_segs].
+    destruct (l_to_free l) eqn:Hf.
+    + destruct (coalesce_nonlead leads reqs k0) as [ls' rs'] eqn:Ec. inversion Hc; subst ls rs. clear Hc.
+      destruct (IH _ _ _ _ _ _ _ Hrest Hab Ec) as (H1 & H2 & H3).
+      split; [cbn [concat app]; exact H1|]. split.
+      * cbn [lay]. rewrite Hf. split; [reflexivity|exact H2].
+      * constructor; [|exact H3]. unfold co_rel. rewrite Hf. reflexivity.
+    + destruct (coalesce_nonlead leads reqs (k0 + l_nonlead_num l)) as [ls' rs'] eqn:Ec.
+      inversion Hc; subst ls rs. clear Hc.
+      destruct (IH _ _ _ _ _ _ _ Hrest Hab Ec) as (H1 & H2 & H3).
+      split; [cbn [concat]; rewrite <- H1; reflexivity|]. split.
+      * cbn [lay]. change (l_to_free (l_set_off l k0)) with (l_to_free l). rewrite Hf.
+        change (l_nonlead_off (l_set_off l k0)) with k0.
+        change (l_nonlead_num (l_set_off l k0)) with (l_nonlead_num l).
+        split; [reflexivity|]. split; [exact Hnum|]. split; [exact Hne|]. split; [exact Hfa|].
+        rewrite <- Hnum. exact H2.
+      * constructor; [|exact H3]. unfold co_rel. rewrite Hf. exists k0. reflexivity.
+Qed.
+
+Lemma kept_segs_len : forall leads segs, Zlen leads = Zlen segs -> Zlen (kept_segs leads segs) = Zlen leads.
+Proof.
+  induction leads as [|l leads IH]; intros segs H; destruct segs as [|sl ss]; cbn [kept_segs]; try reflexivity.
+  - rewrite Proofs_Disk.Zlen_cons, Proofs_Disk.Zlen_nil in H. pose proof (Proofs_Disk.Zlen_nonneg leads). lia.
+  - rewrite !Proofs_Disk.Zlen_cons in *. rewrite IH; lia.
+Qed.
+
+(* the segments of the kept leads are unchanged *)
+Lemma kept_segs_F2 : forall (P : lead -> list req -> Prop) leads ls segs,
+  Forall2 co_rel leads ls -> Forall2 P leads segs ->
+  Forall2 (fun l' sl => l_to_free l' = false -> exists l, In l leads /\ co_rel l l' /\ P l sl) ls (kept_segs leads segs).
+Proof.
+  intros P leads ls segs H. revert segs.
+  induction H as [|l l' leads ls Hll H IH]; intros segs HP; inversion HP as [|x y a b Hxy Hab]; subst; cbn [kept_segs]; constructor.
+  - intros Hf. exists l. split; [left; reflexivity|]. split; [exact Hll|].
+    destruct (co_rel_same _ _ Hll) as (_ & Hf' & _). rewrite Hf in Hf'. rewrite <- Hf'. exact Hxy.
+  - eapply w_F2_impl; [|apply IH; exact Hab].
+    intros l2 sl _ _ Hx Hf. destruct (Hx Hf) as (l0 & Hin & Hrest). exists l0. split; [right; exact Hin|exact Hrest].
+Qed.
+
+(* ---- compaction ---- *)
+Definition kept (leads : list lead) : list lead := filter (fun l => negb (l_to_free l)) leads.
+
+Fixpoint compact_segs (leads : list lead) (segs : list (list req)) (i j : Z) : list (list req) :=
+  match leads, segs with
+  | l :: r, sl :: ss =>
+      if l_to_free l then compact_segs r ss (i + 1) j
+      else (if j <? i then map (fun q => r_set_lead q j) sl else sl) :: compact_segs r ss (i + 1) (j + 1)
+  | _, _ => []
+  end.
+
+Lemma set_lead_range_app : forall pre sl post j,
+  set_lead_range (pre ++ sl ++ post) (Zlen pre) (Zlen sl) j = pre ++ map (fun q => r_set_lead q j) sl ++ post.
+Proof.
+  intros pre sl post j. unfold set_lead_range.
+  rewrite w_zfirstn_app_exact, w_slice_app.
+  replace (Zlen pre + Zlen sl) with (Zlen (pre ++ sl)) by apply Proofs_Disk.Zlen_app.
+  rewrite (app_assoc pre sl post), w_zskipn_app_exact. reflexivity.
+Qed.
+
+Lemma compact_lay : forall leads segs pre i j,
+  lay l_to_free leads segs (Zlen pre) i -> j <= i ->
+  compact_leads leads (pre ++ concat segs) i j = (kept leads, pre ++ concat (compact_segs leads segs i j)) /\
+  lay noskip (kept leads) (compact_segs leads segs i j) (Zlen pre) j.
+Proof.
+  induction leads as [|l leads IH]; intros segs pre i j Hl Hji;
+    destruct segs as [|sl ss]; cbn [lay] in Hl; try contradiction; cbn [compact_leads compact_segs kept filter].
+  - split; [reflexivity|exact I].
+  - fold (kept leads). destruct (l_to_free l) eqn:Hf; cbn [negb].
+    + destruct Hl as (-> & Hrest). cbn [concat app]. apply IH; [exact Hrest|lia].
+    + destruct Hl as (Hoff & Hnum & Hne & Hfa & Hrest).
+      set (sl' := if j <? i then map (fun q => r_set_lead q j) sl else sl).
+      assert (Hlen' : Zlen sl' = Zlen sl).
+      { unfold sl'. destruct (j <? i); [apply Proofs_Disk.Zlen_map|reflexivity]. }
+      assert (Hreqs : (if j <? i then set_lead_range (pre ++ concat (sl :: ss)) (l_nonlead_off l) (l_nonlead_num l) j
+                       else pre ++ concat (sl :: ss)) = (pre ++ sl') ++ concat ss).
+      { unfold sl'. cbn [concat]. destruct (j <? i).
+        - rewrite Hoff, Hnum, set_lead_range_app, app_assoc. reflexivity.
+        - rewrite app_assoc. reflexivity. }
+      rewrite Hreqs.
+      assert (Hrest' : lay l_to_free leads ss (Zlen (pre ++ sl')) (i + 1)).
+      { rewrite Proofs_Disk.Zlen_app, Hlen'. exact Hrest. }
+      destruct (IH ss (pre ++ sl') (i + 1) (j + 1) Hrest' ltac:(lia)) as (Hc & Hlay).
+      rewrite Hc. split.
+      * cbn [concat]. rewrite <- app_assoc. reflexivity.
+      * cbn [lay]. unfold noskip at 1. cbv iota. fold sl'.
+        split; [exact Hoff|]. split; [rewrite Hlen'; exact Hnum|].
+        split. { intros E. apply Hne. apply Proofs_Disk.Zlen_zero_nil. rewrite <- Hlen', E. reflexivity. }
+        split.
+        { unfold sl'. destruct (j <? i) eqn:E.
+          - apply Forall_forall. intros q Hq. apply in_map_iff in Hq. destruct Hq as (q0 & <- & _). reflexivity.
+          - assert (j = i) by lia. subst j. exact Hfa. }
+        rewrite Proofs_Disk.Zlen_app in Hlay. exact Hlay.
+Qed.
+
+(* a property of (lead, segment) that does not look at the back pointers survives compaction *)
+Lemma compact_segs_F2 : forall (P : lead -> list req -> Prop) leads segs i j,
+  (forall l sl k, P l sl -> P l (map (fun q => r_set_lead q k) sl)) ->
+  Forall2 (fun l sl => l_to_free l = false -> P l sl) leads segs ->
+  Forall2 P (kept leads) (compact_segs leads segs i j).
+Proof.
+  intros P leads segs i j HP H. revert i j.
+  induction H as [|l sl leads segs Hlsl H IH]; intros i j; cbn [kept filter compact_segs]; [constructor|].
+  fold (kept leads). destruct (l_to_free l) eqn:Hf; cbn [negb]; [apply IH|].
+  constructor; [|apply IH]. destruct (j <? i); [apply HP|]; apply Hlsl; reflexivity.
+Qed.
+
+Lemma kept_unflagged : forall leads, Forall (fun l => l_to_free l = false) (kept leads).
+Proof.
+  intros leads. apply Forall_forall. intros l Hl. apply filter_In in Hl. destruct Hl as (_ & Hl).
+  destruct (l_to_free l); [discriminate|reflexivity].
+Qed.
+
+Lemma kept_all : forall leads, Forall (fun l => l_to_free l = false) leads -> kept leads = leads.
+Proof.
+  intros leads H. apply w_filter_all_true. eapply Forall_impl; [|exact H].
+  intros l Hl. cbn beta in *. rewrite Hl. reflexivity.
+Qed.
+
+Lemma lead_wf_seg_set_lead : forall isput l sl k,
+  lead_wf_seg isput l sl -> lead_wf_seg isput l (map (fun q => r_set_lead q k) sl).
+Proof.
+  intros isput l sl k H. eapply lead_wf_seg_indep; [apply lead_same_refl| |exact H].
+  rewrite map_map. apply map_ext. intros q. reflexivity.
+Qed.
+
+(* ====================================================================== *)
+(* 4. what extract_reqs does to one queue                                  *)
+(* ====================================================================== *)
+Definition xrel (reqs reqs2 : list req) (l l2 : lead) : Prop :=
+  lead_same l l2 /\ (l_to_free l2 = false -> lead_reqs reqs2 l2 = lead_reqs reqs l).
+
+(* the slices (in the queue as it was) of the leads that are flagged afterwards *)
+Definition zipflag (reqs : list req) (leads leads2 : list lead) : list req :=
+  flat_map (fun p => if l_to_free (snd p) then lead_reqs reqs (fst p) else []) (zip leads leads2).
+
+Definition side_ok (leads : list lead) (reqs : list req) (leads2 : list lead) (reqs2 ext : list req) (nl : Z) : Prop :=
+  Forall2 (xrel reqs reqs2) leads leads2 /\
+  Permutation ext (zipflag reqs leads leads2) /\
+  nl = Zlen (flagged leads2) /\
+  exists segs, reqs2 = concat segs /\ lay l_to_free leads2 segs 0 0.
+
+Lemma zipflag_char : forall reqs (b : lead -> bool) leads leads2,
+  Forall2 (fun l l2 => l_to_free l2 = b l) leads leads2 ->
+  zipflag reqs leads leads2 = flat_map (fun l => if b l then lead_reqs reqs l else []) leads.
+Proof.
+  intros reqs b leads leads2 H. unfold zipflag. induction H as [|l l2 leads leads2 Hl H IH]; [reflexivity|].
+  cbn [zip flat_map fst snd]. rewrite Hl, IH. reflexivity.
+Qed.
+
+Lemma flagged_len_F2 : forall l1 l2, Forall2 (fun a b : lead => l_to_free b = l_to_free a) l1 l2 ->
+  Zlen (flagged l1) = Zlen (flagged l2).
+Proof.
+  intros l1 l2 H. unfold flagged. induction H as [|a b l1 l2 Hab H IH]; [reflexivity|].
+  cbn [filter]. rewrite Hab. destruct (l_to_free a); [rewrite !Proofs_Disk.Zlen_cons, IH; reflexivity|exact IH].
+Qed.
+
+Lemma slices_ok_pos : forall leads reqs k i, slices_ok leads reqs k i -> Forall (fun l => 0 < l_nonlead_num l) leads.
+Proof.
+  induction leads as [|l leads IH]; intros reqs k i H; [constructor|].
+  cbn [slices_ok] in H. destruct H as (_ & Hpos & _ & _ & Hrest). constructor; [exact Hpos|].
+  eapply IH. exact Hrest.
+Qed.
+
+Lemma side_unchanged : forall isput maxid leads reqs,
+  queue_inv isput maxid leads reqs -> side_ok leads reqs leads reqs [] 0.
+Proof.
+  intros isput maxid leads reqs Hq. pose proof Hq as (_ & _ & _ & _ & Hunf).
+  destruct (queue_lay _ _ _ _ Hq) as (segs & Hc & Hl & _).
+  split; [|split; [|split]].
+  - apply w_F2_refl. intros l _. split; [apply lead_same_refl|reflexivity].
+  - rewrite (zipflag_char reqs (fun _ => false)).
+    + rewrite flat_map_nil_all. constructor.
+    + apply w_F2_refl. intros l Hlin. rewrite Forall_forall in Hunf. apply Hunf. exact Hlin.
+  - unfold flagged. rewrite w_filter_all_false by exact Hunf. reflexivity.
+  - exists segs. split; [exact Hc|]. eapply lay_ext; [|exact Hl].
+    apply w_F2_refl. intros l Hin. split.
+    + unfold noskip. symmetry. rewrite Forall_forall in Hunf. apply Hunf. exact Hin.
+    + intros _. split; reflexivity.
+Qed.
+
+Lemma flagged_of_to_free : forall leads leads2, Forall2 flagged_of leads leads2 ->
+  Forall (fun l => l_to_free l = true) leads2.
+Proof.
+  intros leads leads2 H. induction H as [|l l2 leads leads2 (stt & ->) H IH]; constructor; [reflexivity|exact IH].
+Qed.
+
+Lemma side_all : forall isput maxid leads reqs leads2,
+  queue_inv isput maxid leads reqs -> Forall2 flagged_of leads leads2 ->
+  side_ok leads reqs leads2 [] reqs (Zlen leads).
+Proof.
+  intros isput maxid leads reqs leads2 Hq HF.
+  destruct (queue_lay _ _ _ _ Hq) as (segs & Hc & Hl & Hsl).
+  pose proof (flagged_of_to_free _ _ HF) as Hall.
+  split; [|split; [|split]].
+  - eapply w_F2_impl; [|exact HF]. intros l l2 _ _ (stt & ->). split; [apply lead_same_set_flag|].
+    cbn. intros Hd. discriminate Hd.
+  - rewrite (zipflag_char reqs (fun _ => true)).
+    + change (flat_map (fun l => if (fun _ : lead => true) l then lead_reqs reqs l else []) leads)
+        with (flat_map (lead_reqs reqs) leads).
+      assert (E : flat_map (fun l : lead => lead_reqs reqs l) leads = concat segs)
+        by (apply w_F2_concat; exact Hsl).
+      rewrite E, <- Hc. apply Permutation_refl.
+    + eapply w_F2_impl; [|exact HF]. intros l l2 _ _ (stt & ->). reflexivity.
+  - unfold flagged. rewrite w_filter_all_true by exact Hall. apply (w_F2_len _ _ _ _ _ HF).
+  - exists (map (fun _ => []) leads2). split; [symmetry; apply concat_map_nil|].
+    apply lay_all_skipped. exact Hall.
+Qed.
+
+Lemma co_rel_refl : forall l, co_rel l l.
+Proof.
+  intros l. unfold co_rel. destruct (l_to_free l); [reflexivity|].
+  exists (l_nonlead_off l). destruct l; reflexivity.
+Qed.
+
+Lemma coalesce_co_rel : forall leads reqs k ls rs,
+  coalesce_nonlead leads reqs k = (ls, rs) -> Forall2 co_rel leads ls.
+Proof.
+  induction leads as [|l leads IH]; intros reqs k ls rs H; cbn [coalesce_nonlead] in H.
+  - inversion H; subst. constructor.
+  - destruct (l_to_free l) eqn:Hf.
+    + destruct (coalesce_nonlead leads reqs k) as [ls' rs'] eqn:Ec. inversion H; subst ls rs.
+      constructor; [unfold co_rel; rewrite Hf; reflexivity|]. eapply IH. exact Ec.
+    + destruct (coalesce_nonlead leads reqs (k + l_nonlead_num l)) as [ls' rs'] eqn:Ec. inversion H; subst ls rs.
+      constructor; [unfold co_rel; rewrite Hf; exists k; reflexivity|]. eapply IH. exact Ec.
+Qed.
+
+(* the slices of the kept leads are copied unchanged *)
+Lemma coalesce_xrel : forall leads segs reqs kold i pre ls rs,
+  lay noskip leads segs kold i ->
+  Forall2 (fun l sl => lead_reqs reqs l = sl) leads segs ->
+  coalesce_nonlead leads reqs (Zlen pre) = (ls, rs) ->
+  Forall2 (fun l l' => l_to_free l' = false -> lead_reqs (pre ++ rs) l' = lead_reqs reqs l) leads ls.
+Proof.
+  induction leads as [|l leads IH]; intros segs reqs kold i pre ls rs Hl HF Hc;
+    destruct segs as [|sl ss]; cbn [lay] in Hl; try contradiction; cbn [coalesce_nonlead] in Hc.
+  - inversion Hc; subst. constructor.
+  - unfold noskip at 1 in Hl. cbv iota in Hl. destruct Hl as (Hoff & Hnum & Hne & Hfa & Hrest).
+    inversion HF as [|x y a b Hxy Hab]; subst.
+    destruct (l_to_free l) eqn:Hf.
+    + destruct (coalesce_nonlead leads reqs (Zlen pre)) as [ls' rs'] eqn:Ec. inversion Hc; subst ls rs. clear Hc.
+      constructor; [intros Hd; congruence|]. eapply IH; eassumption.
+    + destruct (coalesce_nonlead leads reqs (Zlen pre + l_nonlead_num l)) as [ls' rs'] eqn:Ec.
+      inversion Hc; subst ls rs. clear Hc.
+      change (slice reqs (l_nonlead_off l) (l_nonlead_num l)) with (lead_reqs reqs l).
+      constructor.
+      * intros _. unfold lead_reqs at 1.
+        change (l_nonlead_off (l_set_off l (Zlen pre))) with (Zlen pre).
+        change (l_nonlead_num (l_set_off l (Zlen pre))) with (l_nonlead_num l).
+        rewrite Hnum. apply w_slice_app.
+      * rewrite Hnum, <- Proofs_Disk.Zlen_app in Ec.
+        specialize (IH _ _ _ _ _ _ _ Hrest Hab Ec). rewrite <- app_assoc in IH. exact IH.
+Qed.
+
+Lemma w_F2_map_l : forall A B C (R : B -> C -> Prop) (f : A -> B) l b,
+  Forall2 (fun x y => R (f x) y) l b -> Forall2 R (map f l) b.
+Proof.
+  intros A B C R f l b H. induction H as [|x y l b Hxy H IH]; cbn [map]; constructor; assumption.
+Qed.
+
+Lemma copy_one_nosel : forall sel ll reqs ids, filter sel ids = [] -> flat_map (copy_one sel ll reqs) ids = [].
+Proof.
+  intros sel ll reqs. induction ids as [|x r IH]; intros H; [reflexivity|].
+  cbn [filter] in H. cbn [flat_map]. unfold copy_one at 1. destruct (sel x); [discriminate|]. apply IH. exact H.
+Qed.
+
+(* the ids selected by a successful first loop are the ids of the flagged leads, once each *)
+Lemma mark_perm : forall sel ids i hs leads c s leads1,
+  NoDup (map l_id leads) -> Forall (fun l => l_to_free l = false) leads ->
+  mark_list sel ids i hs leads = Some (leads1, c, s) ->
+  Permutation (filter sel ids) (map l_id (flagged leads1)).
+Proof.
+  intros sel ids i hs leads c s leads1 Hnd Hunf Hm.
+  pose proof (mark_list_map _ _ _ _ _ _ _ _ Hnd Hm) as H1.
+  destruct (mark_list_pending _ _ _ _ _ _ _ _ Hnd Hm) as (Hp & Hnd2 & _ & _).
+  assert (Hnd1 : NoDup (map l_id leads1)).
+  { rewrite H1, map_map. erewrite map_ext; [exact Hnd|]. intros a. apply mark_lead_id. }
+  apply NoDup_Permutation; [exact Hnd2|apply w_NoDup_map_filter; exact Hnd1|].
+  intros x. split.
+  - intros Hx. apply filter_In in Hx. destruct Hx as (Hx & Hsx).
+    destruct (Hp x Hx Hsx) as (l & Hl & Hid & Hf).
+    apply in_map_iff. exists (mark_lead sel ids i hs l). split; [rewrite mark_lead_id; exact Hid|].
+    apply filter_In. split; [rewrite H1; apply in_map; exact Hl|].
+    rewrite mark_lead_to_free, Hf. cbn [orb]. apply existsb_exists. exists x. split; [exact Hx|].
+    rewrite Hsx, Hid, Z.eqb_refl. reflexivity.
+  - intros Hx. apply in_map_iff in Hx. destruct Hx as (l1 & Hid & Hl1).
+    apply filter_In in Hl1. destruct Hl1 as (Hl1 & Hf1).
+    rewrite H1 in Hl1. apply in_map_iff in Hl1. destruct Hl1 as (l & <- & Hl).
+    rewrite Forall_forall in Hunf. rewrite mark_lead_to_free, (Hunf l Hl) in Hf1. cbn [orb] in Hf1.
+    apply existsb_exists in Hf1. destruct Hf1 as (y & Hy & Hsy).
+    rewrite mark_lead_id in Hid. apply filter_In.
+    assert (y = x) by lia. subst y. split; [exact Hy|]. destruct (sel x); [reflexivity|discriminate].
+Qed.
+
+Lemma side_subset : forall isput maxid leads reqs sel ids i hs leads1 c s leads2 reqs2,
+  queue_inv isput maxid leads reqs ->
+  mark_list sel ids i hs leads = Some (leads1, c, s) ->
+  (if s =? 0 then (leads1, reqs) else coalesce_nonlead leads1 reqs 0) = (leads2, reqs2) ->
+  side_ok leads reqs leads2 reqs2 (flat_map (copy_one sel leads1 reqs) ids) c /\
+  leads1 = map (mark_lead sel ids i hs) leads /\ Forall2 co_rel leads1 leads2.
+Proof.
+  intros isput maxid leads reqs sel ids i hs leads1 c s leads2 reqs2 Hq Hm H2.
+  pose proof Hq as (Hnd & _ & Hso & _ & Hunf).
+  pose proof (mark_list_map _ _ _ _ _ _ _ _ Hnd Hm) as H1.
+  destruct (mark_list_pending _ _ _ _ _ _ _ _ Hnd Hm) as (Hp & Hnd2 & Hc & Hs).
+  specialize (Hs (slices_ok_pos _ _ _ _ Hso)).
+  destruct (s =? 0) eqn:Es.
+  - (* nothing selected *)
+    inversion H2; subst leads2 reqs2. clear H2.
+    assert (Hnil : filter sel ids = []).
+    { apply Proofs_Disk.Zlen_zero_nil. pose proof (Proofs_Disk.Zlen_nonneg (filter sel ids)). lia. }
+    assert (E : leads1 = leads).
+    { rewrite H1. erewrite map_ext; [apply map_id|]. intros a. apply mark_lead_nosel. exact Hnil. }
+    split; [|split; [exact H1|apply w_F2_refl; intros l _; apply co_rel_refl]].
+    rewrite copy_one_nosel by exact Hnil. rewrite Hc, Hnil, E. eapply side_unchanged. exact Hq.
+  - destruct (queue_lay _ _ _ _ Hq) as (segs & Hcc & Hl & Hsl).
+    assert (Hl1 : lay noskip leads1 segs 0 0).
+    { eapply lay_ext; [|exact Hl]. rewrite H1. apply w_F2_map_r. intros l _. split; [reflexivity|].
+      intros _. rewrite mark_lead_off. pose proof (mark_lead_same sel ids i hs l) as (_ & _ & _ & Hn & _).
+      split; [reflexivity|exact Hn]. }
+    assert (Hsl1 : Forall2 (fun l sl => lead_reqs reqs l = sl) leads1 segs).
+    { rewrite H1. apply w_F2_map_l. eapply w_F2_impl; [|exact Hsl].
+      intros l sl _ _ E. rewrite mark_lead_reqs. exact E. }
+    destruct (coalesce_lay _ _ _ _ _ _ _ _ Hl1 Hsl1 H2) as (Hr2 & Hlay2 & Hco).
+    pose proof (coalesce_xrel _ _ _ _ _ [] _ _ Hl1 Hsl1 H2) as Hx. cbn [app] in Hx.
+    assert (Hfl : Forall2 (fun l l2 => l_to_free l2 = l_to_free (mark_lead sel ids i hs l)) leads leads2).
+    { rewrite H1 in Hco. clear - Hco. remember (map (mark_lead sel ids i hs) leads) as m eqn:Em.
+      revert leads Em. induction Hco as [|a b m leads2 Hab Hco IH]; intros leads Em; destruct leads as [|l leads]; try discriminate Em.
+      - constructor.
+      - cbn [map] in Em. inversion Em; subst a m. constructor; [|apply IH; reflexivity].
+        apply co_rel_same in Hab. apply Hab. }
+    split; [|split; [exact H1|exact Hco]].
+    split; [|split; [|split]].
+    + (* xrel *)
+      rewrite H1 in Hx, Hco. clear - Hx Hco.
+      remember (map (mark_lead sel ids i hs) leads) as m eqn:Em. revert leads Em Hx.
+      induction Hco as [|a b m leads2 Hab Hco IH]; intros leads Em Hx; destruct leads as [|l leads]; try discriminate Em.
+      * constructor.
+      * cbn [map] in Em. inversion Em; subst a m. inversion Hx as [|x0 y0 a0 b0 Hxy Hrest]; subst.
+        constructor; [|apply IH; [reflexivity|exact Hrest]].
+        split.
+        -- eapply lead_same_trans; [apply mark_lead_same|]. apply co_rel_same in Hab. apply Hab.
+        -- intros Hf. rewrite (Hxy Hf). apply mark_lead_reqs.
+    + (* the extracted requests *)
+      rewrite (zipflag_char reqs (fun l => l_to_free (mark_lead sel ids i hs l)) _ _ Hfl).
+      assert (E1 : flat_map (copy_one sel leads1 reqs) ids =
+                   flat_map (fun x => match find_flagged leads1 x with
+                                      | Some l => lead_reqs reqs l | None => [] end) (filter sel ids)).
+      { rewrite <- w_flat_map_filter. reflexivity. }
+      rewrite E1. rewrite (mark_perm _ _ _ _ _ _ _ _ Hnd Hunf Hm).
+      assert (Hnd1 : NoDup (map l_id leads1)).
+      { rewrite H1, map_map. erewrite map_ext; [exact Hnd|]. intros a. apply mark_lead_id. }
+      rewrite w_flat_map_map.
+      rewrite (w_flat_map_ext_in _ _ _ (lead_reqs reqs) (flagged leads1)).
+      * unfold flagged. rewrite <- w_flat_map_filter. rewrite H1, w_flat_map_map.
+        erewrite w_flat_map_ext_in; [apply Permutation_refl|].
+        intros l _. cbn beta. rewrite mark_lead_reqs. reflexivity.
+      * intros l1 Hl1in. apply filter_In in Hl1in. destruct Hl1in as (Hin & Hf).
+        rewrite (find_flagged_In _ _ Hnd1 Hin Hf). reflexivity.
+    + (* the counter *)
+      rewrite Hc. rewrite <- (flagged_len_F2 leads1 leads2).
+      * pose proof (Permutation_length (mark_perm _ _ _ _ _ _ _ _ Hnd Hunf Hm)) as Hlen.
+        rewrite map_length in Hlen. unfold Zlen. rewrite Hlen. reflexivity.
+      * eapply w_F2_impl; [|exact Hco]. intros a b _ _ Hab. apply co_rel_same in Hab. apply Hab.
+    + exists (kept_segs leads1 segs). split; [exact Hr2|exact Hlay2].
+Qed.
+
+(* ---- all paths of extract_reqs ---- *)
+Ltac ex_proj := cbn [ex_st ex_ids ex_stat ex_put ex_get ex_nwl ex_nrl ex_err
+                     put_lead get_lead put_reqs get_reqs maxPutID maxGetID st_abuf st_numrecs st_mem
+                     set_put set_get].
+
+Ltac fin5 := split; [assumption|split; [assumption|split; [reflexivity|split; reflexivity]]].
+
+Lemma extract_sides : forall st n ids hs stat0, nb_inv st ->
+  ex_err (extract_reqs st n ids hs stat0) = NC_NOERR ->
+  side_ok (put_lead st) (put_reqs st) (put_lead (ex_st (extract_reqs st n ids hs stat0)))
+          (put_reqs (ex_st (extract_reqs st n ids hs stat0)))
+          (ex_put (extract_reqs st n ids hs stat0)) (ex_nwl (extract_reqs st n ids hs stat0)) /\
+  side_ok (get_lead st) (get_reqs st) (get_lead (ex_st (extract_reqs st n ids hs stat0)))
+          (get_reqs (ex_st (extract_reqs st n ids hs stat0)))
+          (ex_get (extract_reqs st n ids hs stat0)) (ex_nrl (extract_reqs st n ids hs stat0)) /\
+  maxPutID (ex_st (extract_reqs st n ids hs stat0)) = maxPutID st /\
+  maxGetID (ex_st (extract_reqs st n ids hs stat0)) = maxGetID st /\
+  st_abuf (ex_st (extract_reqs st n ids hs stat0)) = st_abuf st.
+Proof.
+  intros st n ids hs stat0 (Hp & Hg). unfold extract_reqs. cbv zeta.
+  pose proof (side_unchanged _ _ _ _ Hp) as HpU. pose proof (side_unchanged _ _ _ _ Hg) as HgU.
+  pose proof (side_all _ _ _ _ _ Hp (flag_all_F2 _)) as HpA.
+  pose proof (side_all _ _ _ _ _ Hg (flag_all_F2 _)) as HgA.
+  pose proof (side_all _ _ _ _ _ Hp (flag_all_status_F2 _ 0)) as HpS.
+  pose proof (side_all _ _ _ _ _ Hg (flag_all_status_F2 _ 0)) as HgS.
+  destruct (n <? 0) eqn:E0.
+  { intros _.
+    destruct ((n =? NC_PUT_REQ_ALL) || (n =? NC_REQ_ALL)); destruct ((n =? NC_GET_REQ_ALL) || (n =? NC_REQ_ALL));
+      ex_proj; fin5. }
+  destruct ((Zlen (get_reqs st) =? 0) && (n =? Zlen (put_lead st))) eqn:E1.
+  { intros _. destruct hs; ex_proj; fin5. }
+  destruct ((Zlen (put_reqs st) =? 0) && (n =? Zlen (get_lead st))) eqn:E2.
+  { intros _. destruct hs; ex_proj; fin5. }
+  destruct ((n =? Zlen (put_lead st) + Zlen (get_lead st)) && negb hs) eqn:E3.
+  { intros _. ex_proj. fin5. }
+  destruct (ex_mark ids 0 hs (put_lead st) (get_lead st) stat0 0 0 0 0 NC_NOERR)
+    as [[[[[[[pl1 gl1] stat1] nwl] nwr] nrl] nrr] err] eqn:Em.
+  destruct (negb (err =? NC_NOERR)) eqn:Ee.
+  { ex_proj. intros Herr. lia. }
+  assert (err = NC_NOERR) by lia. subst err.
+  destruct (ex_mark_spec _ _ _ _ _ _ _ _ _ _ _ _ _ _ _ _ _ _ Em) as (_ & c1 & s1 & c2 & s2 & Hm1 & Hm2 & -> & -> & -> & ->).
+  rewrite ex_copy_spec. cbv iota beta.
+  replace (0 + s1) with s1 by lia. replace (0 + s2) with s2 by lia.
+  replace (0 + c1) with c1 by lia. replace (0 + c2) with c2 by lia.
+  destruct (if s1 =? 0 then (pl1, put_reqs st) else coalesce_nonlead pl1 (put_reqs st) 0) as [pl2 pr2] eqn:Ep.
+  destruct (if s2 =? 0 then (gl1, get_reqs st) else coalesce_nonlead gl1 (get_reqs st) 0) as [gl2 gr2] eqn:Eg.
+  intros _. ex_proj.
+  destruct (side_subset _ _ _ _ _ _ _ _ _ _ _ _ _ Hp Hm1 Ep) as (Hs1 & _).
+  destruct (side_subset _ _ _ _ _ _ _ _ _ _ _ _ _ Hg Hm2 Eg) as (Hs2 & _).
+  fin5.
+Qed.
+
+(* ====================================================================== *)
+(* W1. the leads keep their identity                                       *)
+(* ====================================================================== *)
+Lemma F2_same_trans : forall a b c, Forall2 lead_same a b -> Forall2 lead_same b c -> Forall2 lead_same a c.
+Proof.
+  intros a b c H1 H2. eapply w_F2_impl; [|exact (w_F2_trans _ _ _ _ _ _ _ _ H1 H2)].
+  intros x z _ _ (y & _ & Hxy & Hyz). eapply lead_same_trans; eassumption.
+Qed.
+
+Lemma F2_same_refl : forall a, Forall2 lead_same a a.
+Proof. intros a. apply w_F2_refl. intros x _. apply lead_same_refl. Qed.
+
+Lemma flagged_of_same : forall a b, Forall2 flagged_of a b -> Forall2 lead_same a b.
+Proof.
+  intros a b H. eapply w_F2_impl; [|exact H]. intros x y _ _ (stt & ->). apply lead_same_set_flag.
+Qed.
+
+Lemma flag_first_same : forall ll x stt ll' n, flag_first ll x stt = Some (ll', n) -> Forall2 lead_same ll ll'.
+Proof.
+  induction ll as [|l r IH]; intros x stt ll' n H; cbn [flag_first] in H; [discriminate|].
+  destruct (negb (l_to_free l) && (l_id l =? x)).
+  - inversion H; subst. constructor; [apply lead_same_set_flag|apply F2_same_refl].
+  - destruct (flag_first r x stt) as [[r' n']|] eqn:Er; [|discriminate]. inversion H; subst.
+    constructor; [apply lead_same_refl|]. eapply IH. exact Er.
+Qed.
+
+Lemma ex_mark_same : forall ids i hs pl gl stat nwl nwr nrl nrr err,
+  Forall2 lead_same pl (fst (fst (fst (fst (fst (fst (fst (ex_mark ids i hs pl gl stat nwl nwr nrl nrr err)))))))) /\
+  Forall2 lead_same gl (snd (fst (fst (fst (fst (fst (fst (ex_mark ids i hs pl gl stat nwl nwr nrl nrr err)))))))).
+Proof.
+  induction ids as [|x r IH]; intros i hs pl gl stat nwl nwr nrl nrr err; cbn [ex_mark].
+  - cbn [fst snd]. split; apply F2_same_refl.
+  - destruct (x =? NC_REQ_NULL); [apply IH|].
+    destruct (Z.rem x 2 =? 0).
+    + destruct (flag_first pl x (if hs then Some i else None)) as [[pl' n]|] eqn:Ef; [|apply IH].
+      pose proof (flag_first_same _ _ _ _ _ Ef) as Hs.
+      match goal with |- context [ex_mark r ?a ?b ?c ?d ?e ?f ?g ?h ?k ?m] =>
+        destruct (IH a b c d e f g h k m) as (I1 & I2) end.
+      split; [eapply F2_same_trans; eassumption|exact I2].
+    + destruct (flag_first gl x (if hs then Some i else None)) as [[gl' n]|] eqn:Ef; [|apply IH].
+      pose proof (flag_first_same _ _ _ _ _ Ef) as Hs.
+      match goal with |- context [ex_mark r ?a ?b ?c ?d ?e ?f ?g ?h ?k ?m] =>
+        destruct (IH a b c d e f g h k m) as (I1 & I2) end.
+      split; [exact I1|eapply F2_same_trans; eassumption].
+Qed.
+
+Lemma co_rel_F2_same : forall a b, Forall2 co_rel a b -> Forall2 lead_same a b.
+Proof. intros a b H. eapply w_F2_impl; [|exact H]. intros x y _ _ Hxy. apply co_rel_same in Hxy. apply Hxy. Qed.
+
+Theorem extract_leads_same : forall st n ids hs stat0,
+  Forall2 lead_same (put_lead st) (put_lead (ex_st (extract_reqs st n ids hs stat0))) /\
+  Forall2 lead_same (get_lead st) (get_lead (ex_st (extract_reqs st n ids hs stat0))).
+Proof.
+  intros st n ids hs stat0. unfold extract_reqs. cbv zeta.
+  pose proof (F2_same_refl (put_lead st)) as HpU. pose proof (F2_same_refl (get_lead st)) as HgU.
+  pose proof (flagged_of_same _ _ (flag_all_F2 (put_lead st))) as HpA.
+  pose proof (flagged_of_same _ _ (flag_all_F2 (get_lead st))) as HgA.
+  pose proof (flagged_of_same _ _ (flag_all_status_F2 (put_lead st) 0)) as HpS.
+  pose proof (flagged_of_same _ _ (flag_all_status_F2 (get_lead st) 0)) as HgS.
+  destruct (n <? 0).
+  { destruct ((n =? NC_PUT_REQ_ALL) || (n =? NC_REQ_ALL)); destruct ((n =? NC_GET_REQ_ALL) || (n =? NC_REQ_ALL));
+      ex_proj; split; assumption. }
+  destruct ((Zlen (get_reqs st) =? 0) && (n =? Zlen (put_lead st))).
+  { destruct hs; ex_proj; split; assumption. }
+  destruct ((Zlen (put_reqs st) =? 0) && (n =? Zlen (get_lead st))).
+  { destruct hs; ex_proj; split; assumption. }
+  destruct ((n =? Zlen (put_lead st) + Zlen (get_lead st)) && negb hs).
+  { ex_proj. split; assumption. }
+  pose proof (ex_mark_same ids 0 hs (put_lead st) (get_lead st) stat0 0 0 0 0 NC_NOERR) as (Hm1 & Hm2).
+  destruct (ex_mark ids 0 hs (put_lead st) (get_lead st) stat0 0 0 0 0 NC_NOERR)
+    as [[[[[[[pl1 gl1] stat1] nwl] nwr] nrl] nrr] err] eqn:Em.
+  cbn [fst snd] in Hm1, Hm2.
+  destruct (negb (err =? NC_NOERR)).
+  { ex_proj. split; assumption. }
+  rewrite ex_copy_spec. cbv iota beta.
+  destruct (if nwr =? 0 then (pl1, put_reqs st) else coalesce_nonlead pl1 (put_reqs st) 0) as [pl2 pr2] eqn:Ep.
+  destruct (if nrr =? 0 then (gl1, get_reqs st) else coalesce_nonlead gl1 (get_reqs st) 0) as [gl2 gr2] eqn:Eg.
+  ex_proj. split.
+  - destruct (nwr =? 0).
+    + inversion Ep; subst. exact Hm1.
+    + eapply F2_same_trans; [exact Hm1|]. apply co_rel_F2_same. eapply coalesce_co_rel. exact Ep.
+  - destruct (nrr =? 0).
+    + inversion Eg; subst. exact Hm2.
+    + eapply F2_same_trans; [exact Hm2|]. apply co_rel_F2_same. eapply coalesce_co_rel. exact Eg.
+Qed.
+
+(* ====================================================================== *)
+(* W2. the extracted non-lead requests are the slices of the flagged leads *)
+(* ====================================================================== *)
+Theorem extract_put_slices : forall st n ids hs stat0, nb_inv st ->
+  ex_err (extract_reqs st n ids hs stat0) = NC_NOERR ->
+  Permutation (ex_put (extract_reqs st n ids hs stat0))
+    (flat_map (fun p => if l_to_free (snd p) then lead_reqs (put_reqs st) (fst p) else [])
+              (zip (put_lead st) (put_lead (ex_st (extract_reqs st n ids hs stat0))))) /\
+  ex_nwl (extract_reqs st n ids hs stat0) = Zlen (flagged (put_lead (ex_st (extract_reqs st n ids hs stat0)))).
+Proof.
+  intros st n ids hs stat0 Hinv Herr.
+  destruct (extract_sides st n ids hs stat0 Hinv Herr) as ((_ & Hperm & Hn & _) & _).
+  split; [exact Hperm|exact Hn].
+Qed.
+
+Theorem extract_get_slices : forall st n ids hs stat0, nb_inv st ->
+  ex_err (extract_reqs st n ids hs stat0) = NC_NOERR ->
+  Permutation (ex_get (extract_reqs st n ids hs stat0))
+    (flat_map (fun p => if l_to_free (snd p) then lead_reqs (get_reqs st) (fst p) else [])
+              (zip (get_lead st) (get_lead (ex_st (extract_reqs st n ids hs stat0))))) /\
+  ex_nrl (extract_reqs st n ids hs stat0) = Zlen (flagged (get_lead (ex_st (extract_reqs st n ids hs stat0)))).
+Proof.
+  intros st n ids hs stat0 Hinv Herr.
+  destruct (extract_sides st n ids hs stat0 Hinv Herr) as (_ & (_ & Hperm & Hn & _) & _).
+  split; [exact Hperm|exact Hn].
+Qed.
+
+(* ====================================================================== *)
+(* W3. the extracted requests, annotated, address what the flagged leads   *)
+(*     were posted with                                                    *)
+(* ====================================================================== *)
+Lemma w_F2_3 : forall A B C (P : A -> C -> Prop) (Q : C -> B -> Prop) (R : A -> B -> Prop) a s b,
+  Forall2 P a s -> Forall2 Q s b -> Forall2 R a b ->
+  Forall2 (fun x y => R x y /\ exists z, P x z /\ Q z y) a b.
+Proof.
+  intros A B C P Q R a s b H. revert b.
+  induction H as [|x z a s Hxz H IH]; intros b HQ HR; inversion HQ as [|z0 y0 s0 b0 Hzy HQ']; subst;
+    inversion HR as [|x1 y1 a1 b1 Hxy HR']; subst; constructor.
+  - split; [exact Hxy|]. exists z. split; assumption.
+  - apply IH; assumption.
+Qed.
+
+Lemma annotate_eq : forall X q l2, znth X (r_lead_off q) dummy_lead = l2 ->
+  exists s e, annotate X q = mkareq q l2 s e.
+Proof.
+  intros X q l2 H. unfold annotate. rewrite H. destruct (access_range l2 q) as [s e]. exists s, e. reflexivity.
+Qed.
+
+Lemma seg_pairs_annot : forall isput X l l2 sl,
+  lead_same l l2 -> lead_wf_seg isput l sl ->
+  Forall (fun q => znth X (r_lead_off q) dummy_lead = l2) sl ->
+  Forall areq_wf (map (annotate X) sl) /\ flat_map areq_pairs (map (annotate X) sl) = lead_pairs l2.
+Proof.
+  intros isput X l l2 sl Hs (_ & _ & Hwf & Hp) Hz.
+  rewrite <- (lead_pairs_same _ _ Hs), <- Hp. clear Hp.
+  pose proof Hs as (_ & Hg & Hst & _).
+  induction sl as [|q sl IH]; [split; [constructor|reflexivity]|].
+  pose proof (Forall_inv Hwf) as Hwq. pose proof (Forall_inv_tail Hwf) as Hwr.
+  pose proof (Forall_inv Hz) as Hzq. pose proof (Forall_inv_tail Hz) as Hzr. cbn beta in Hwq, Hzq.
+  destruct (IH Hwr Hzr) as (I1 & I2).
+  destruct (annotate_eq _ _ _ Hzq) as (s & e & Ea).
+  cbn [map flat_map]. rewrite Ea, I2. split.
+  - constructor; [|exact I1]. eapply areq_wf_lead_indep; [reflexivity|exact Hg|exact Hst|exact Hwq].
+  - f_equal. symmetry. apply areq_pairs_lead_indep; [reflexivity|exact Hg|exact Hst].
+Qed.
+
+Lemma zipflag_pairs : forall isput reqs X leads leads2,
+  Forall2 (fun l l2 => lead_same l l2 /\ lead_wf isput reqs l /\
+                       Forall (fun q => znth X (r_lead_off q) dummy_lead = l2) (lead_reqs reqs l)) leads leads2 ->
+  Forall areq_wf (map (annotate X) (zipflag reqs leads leads2)) /\
+  flat_map areq_pairs (map (annotate X) (zipflag reqs leads leads2)) = flat_map lead_pairs (flagged leads2).
+Proof.
+  intros isput reqs X leads leads2 H. unfold zipflag, flagged.
+  induction H as [|l l2 leads leads2 (Hs & Hwf & Hz) H (I1 & I2)]; [split; [constructor|reflexivity]|].
+  cbn [zip flat_map fst snd filter]. destruct (l_to_free l2).
+  - destruct (seg_pairs_annot isput X l l2 _ Hs Hwf Hz) as (S1 & S2).
+    rewrite map_app, flat_map_app. split.
+    + apply Forall_app. split; assumption.
+    + cbn [flat_map]. rewrite S2, I2. reflexivity.
+  - cbn [app]. split; assumption.
+Qed.
+
+Lemma pairs_of_side : forall isput maxid leads reqs leads2 reqs2 ext nl,
+  queue_inv isput maxid leads reqs -> side_ok leads reqs leads2 reqs2 ext nl ->
+  Forall areq_wf (map (annotate leads2) ext) /\
+  Permutation (flat_map areq_pairs (map (annotate leads2) ext)) (flat_map lead_pairs (flagged leads2)).
+Proof.
+  intros isput maxid leads reqs leads2 reqs2 ext nl Hq (HF & Hperm & _ & _).
+  destruct (queue_lay _ _ _ _ Hq) as (segs & Hc & Hl & Hsl).
+  pose proof Hq as (_ & _ & _ & Hwf & _).
+  pose proof (lay_lead_off noskip leads segs [] leads2 0 _ Hl HF) as Hoff. cbn [app] in Hoff.
+  pose proof (w_F2_3 _ _ _ _ _ _ _ _ _ Hsl Hoff HF) as H3.
+  assert (H4 : Forall2 (fun l l2 => lead_same l l2 /\ lead_wf isput reqs l /\
+                 Forall (fun q => znth leads2 (r_lead_off q) dummy_lead = l2) (lead_reqs reqs l)) leads leads2).
+  { eapply w_F2_impl; [|exact (w_F2_Forall_l _ _ _ _ _ _ Hwf H3)].
+    intros l l2 _ _ (Hw & (Hs & _) & sl & E & Hz). split; [exact Hs|]. split; [exact Hw|].
+    rewrite E. exact Hz. }
+  destruct (zipflag_pairs _ _ _ _ _ H4) as (Z1 & Z2).
+  split.
+  - eapply Permutation_Forall; [|exact Z1]. apply Permutation_map. apply Permutation_sym. exact Hperm.
+  - rewrite <- Z2. apply Permutation_flat_map. apply Permutation_map. exact Hperm.
+Qed.
+
+Theorem wait_put_pairs : forall st n ids hs stat0, nb_inv st ->
+  ex_err (extract_reqs st n ids hs stat0) = NC_NOERR ->
+  Forall areq_wf (map (annotate (put_lead (ex_st (extract_reqs st n ids hs stat0))))
+                      (ex_put (extract_reqs st n ids hs stat0))) /\
+  Permutation (flat_map areq_pairs (map (annotate (put_lead (ex_st (extract_reqs st n ids hs stat0))))
+                                        (ex_put (extract_reqs st n ids hs stat0))))
+              (flat_map lead_pairs (flagged (put_lead (ex_st (extract_reqs st n ids hs stat0))))).
+Proof.
+  intros st n ids hs stat0 Hinv Herr.
+  destruct (extract_sides st n ids hs stat0 Hinv Herr) as (Hs & _).
+  destruct Hinv as (Hp & _). eapply pairs_of_side; eassumption.
+Qed.
+
+Theorem wait_get_pairs : forall st n ids hs stat0, nb_inv st ->
+  ex_err (extract_reqs st n ids hs stat0) = NC_NOERR ->
+  Forall areq_wf (map (annotate (get_lead (ex_st (extract_reqs st n ids hs stat0))))
+                      (ex_get (extract_reqs st n ids hs stat0))) /\
+  Permutation (flat_map areq_pairs (map (annotate (get_lead (ex_st (extract_reqs st n ids hs stat0))))
+                                        (ex_get (extract_reqs st n ids hs stat0))))
+              (flat_map lead_pairs (flagged (get_lead (ex_st (extract_reqs st n ids hs stat0))))).
+Proof.
+  intros st n ids hs stat0 Hinv Herr.
+  destruct (extract_sides st n ids hs stat0 Hinv Herr) as (_ & Hs & _).
+  destruct Hinv as (_ & Hg). eapply pairs_of_side; eassumption.
+Qed.
+
+(* ====================================================================== *)
+(* W4. which leads get flagged                                             *)
+(* ====================================================================== *)
+Theorem extract_all_flags : forall st n ids hs stat0, nb_inv st -> n < 0 ->
+  ex_err (extract_reqs st n ids hs stat0) = NC_NOERR /\
+  (forall l', In l' (put_lead (ex_st (extract_reqs st n ids hs stat0))) ->
+     (l_to_free l' = true <-> (n = NC_PUT_REQ_ALL \/ n = NC_REQ_ALL))) /\
+  (forall l', In l' (get_lead (ex_st (extract_reqs st n ids hs stat0))) ->
+     (l_to_free l' = true <-> (n = NC_GET_REQ_ALL \/ n = NC_REQ_ALL))).
+Proof.
+  intros st n ids hs stat0 ((_ & _ & _ & _ & Hpu) & (_ & _ & _ & _ & Hgu)) Hn.
+  unfold extract_reqs. cbv zeta. destruct (n <? 0) eqn:E0; [|lia].
+  rewrite Forall_forall in Hpu, Hgu.
+  assert (Hfa : forall leads l', In l' (flag_all leads) -> l_to_free l' = true).
+  { intros leads l' Hin. unfold flag_all in Hin. apply in_map_iff in Hin. destruct Hin as (l & <- & _). reflexivity. }
+  destruct ((n =? NC_PUT_REQ_ALL) || (n =? NC_REQ_ALL)) eqn:Ewp;
+    destruct ((n =? NC_GET_REQ_ALL) || (n =? NC_REQ_ALL)) eqn:Ewg; ex_proj;
+    (split; [reflexivity|]); split; intros l' Hin.
+  - rewrite (Hfa _ _ Hin). split; [intros _; lia|reflexivity].
+  - rewrite (Hfa _ _ Hin). split; [intros _; lia|reflexivity].
+  - rewrite (Hfa _ _ Hin). split; [intros _; lia|reflexivity].
+  - rewrite (Hgu _ Hin). split; [discriminate|intros H; lia].
+  - rewrite (Hpu _ Hin). split; [discriminate|intros H; lia].
+  - rewrite (Hfa _ _ Hin). split; [intros _; lia|reflexivity].
+  - rewrite (Hpu _ Hin). split; [discriminate|intros H; lia].
+  - rewrite (Hgu _ Hin). split; [discriminate|intros H; lia].
+Qed.
+
+(* none of the two "same as PUT/GET_REQ_ALL" shortcuts *)
+Definition no_shortcut (st : nbstate) (n : Z) : Prop :=
+  ~ (Zlen (get_reqs st) = 0 /\ n = Zlen (put_lead st)) /\
+  ~ (Zlen (put_reqs st) = 0 /\ n = Zlen (get_lead st)).
+
+(* the structure of the result on the subset path (the third shortcut needs statuses == NULL) *)
+Lemma subset_struct : forall st n ids hs stat0,
+  nb_inv st -> no_shortcut st n -> 0 <= n ->
+  (hs = true \/ n <> Zlen (put_lead st) + Zlen (get_lead st)) ->
+  ex_err (extract_reqs st n ids hs stat0) = NC_NOERR ->
+  exists pl1 gl1 stat1 c1 s1 c2 s2,
+    ex_mark ids 0 hs (put_lead st) (get_lead st) stat0 0 0 0 0 NC_NOERR
+      = (pl1, gl1, stat1, c1, s1, c2, s2, NC_NOERR) /\
+    mark_list selp ids 0 hs (put_lead st) = Some (pl1, c1, s1) /\
+    mark_list selg ids 0 hs (get_lead st) = Some (gl1, c2, s2) /\
+    pl1 = map (mark_lead selp ids 0 hs) (put_lead st) /\
+    gl1 = map (mark_lead selg ids 0 hs) (get_lead st) /\
+    Forall2 co_rel pl1 (put_lead (ex_st (extract_reqs st n ids hs stat0))) /\
+    Forall2 co_rel gl1 (get_lead (ex_st (extract_reqs st n ids hs stat0))) /\
+    ex_ids (extract_reqs st n ids hs stat0) = map (reset_one pl1 gl1) ids /\
+    ex_stat (extract_reqs st n ids hs stat0) = stat1.
+Proof.
+  intros st n ids hs stat0 (Hp & Hg) (Hns1 & Hns2) Hn Hhs. unfold extract_reqs. cbv zeta.
+  destruct (n <? 0) eqn:E0; [lia|].
+  destruct ((Zlen (get_reqs st) =? 0) && (n =? Zlen (put_lead st))) eqn:E1; [exfalso; apply Hns1; lia|].
+  destruct ((Zlen (put_reqs st) =? 0) && (n =? Zlen (get_lead st))) eqn:E2; [exfalso; apply Hns2; lia|].
+  destruct ((n =? Zlen (put_lead st) + Zlen (get_lead st)) && negb hs) eqn:E3.
+  { exfalso. destruct Hhs as [->|Hne]; [cbn [negb] in E3; rewrite andb_false_r in E3; discriminate|lia]. }
+  destruct (ex_mark ids 0 hs (put_lead st) (get_lead st) stat0 0 0 0 0 NC_NOERR)
+    as [[[[[[[pl1 gl1] stat1] nwl] nwr] nrl] nrr] err] eqn:Em.
+  destruct (negb (err =? NC_NOERR)) eqn:Ee.
+  { ex_proj. intros Herr. lia. }
+  assert (err = NC_NOERR) by lia. subst err.
+  destruct (ex_mark_spec _ _ _ _ _ _ _ _ _ _ _ _ _ _ _ _ _ _ Em) as (_ & c1 & s1 & c2 & s2 & Hm1 & Hm2 & -> & -> & -> & ->).
+  rewrite ex_copy_spec. cbv iota beta.
+  replace (0 + s1) with s1 by lia. replace (0 + s2) with s2 by lia.
+  replace (0 + c1) with c1 by lia. replace (0 + c2) with c2 by lia.
+  destruct (if s1 =? 0 then (pl1, put_reqs st) else coalesce_nonlead pl1 (put_reqs st) 0) as [pl2 pr2] eqn:Ep.
+  destruct (if s2 =? 0 then (gl1, get_reqs st) else coalesce_nonlead gl1 (get_reqs st) 0) as [gl2 gr2] eqn:Eg.
+  intros _. ex_proj.
+  destruct (side_subset _ _ _ _ _ _ _ _ _ _ _ _ _ Hp Hm1 Ep) as (_ & H1 & Hc1).
+  destruct (side_subset _ _ _ _ _ _ _ _ _ _ _ _ _ Hg Hm2 Eg) as (_ & H2 & Hc2).
+  exists pl1, gl1, stat1, c1, s1, c2, s2. repeat split; assumption.
+Qed.
+
+Lemma selp_put_id : forall x, Z.even x = true -> 0 <= x -> selp x = true.
+Proof.
+  intros x He Hx. unfold selp. rewrite w_rem2_even, He. unfold NC_REQ_NULL.
+  destruct (x =? -1) eqn:E; [lia|reflexivity].
+Qed.
+
+Lemma selg_get_id : forall x, Z.even x = false -> 0 <= x -> selg x = true.
+Proof.
+  intros x He Hx. unfold selg. rewrite w_rem2_even, He. unfold NC_REQ_NULL.
+  destruct (x =? -1) eqn:E; [lia|reflexivity].
+Qed.
+
+Lemma existsb_sel_in : forall sel ids y, sel y = true ->
+  (existsb (fun x => sel x && (y =? x)) ids = true <-> In y ids).
+Proof.
+  intros sel ids y Hs. rewrite existsb_exists. split.
+  - intros (x & Hx & Hc). assert (y = x) by lia. subst x. exact Hx.
+  - intros Hy. exists y. split; [exact Hy|]. rewrite Hs, Z.eqb_refl. reflexivity.
+Qed.
+
+Lemma side_flag_iff : forall sel leads ids i hs leads2,
+  Forall (fun l => l_to_free l = false) leads -> (forall l, In l leads -> sel (l_id l) = true) ->
+  Forall2 co_rel (map (mark_lead sel ids i hs) leads) leads2 ->
+  forall l', In l' leads2 -> (l_to_free l' = true <-> In (l_id l') ids).
+Proof.
+  intros sel leads ids i hs leads2 Hunf Hsel Hco l' Hin.
+  destruct (w_F2_In_r _ _ _ _ _ _ Hco Hin) as (l1 & Hl1 & Hrel).
+  apply in_map_iff in Hl1. destruct Hl1 as (l & <- & Hl).
+  destruct (co_rel_same _ _ Hrel) as (Hs & Hf & _).
+  rewrite Forall_forall in Hunf.
+  rewrite Hf, <- (lead_same_id _ _ Hs), mark_lead_id, mark_lead_to_free, (Hunf l Hl). cbn [orb].
+  apply existsb_sel_in. apply Hsel. exact Hl.
+Qed.
+
+Lemma put_ids_sel : forall maxid leads reqs, queue_inv true maxid leads reqs ->
+  forall l, In l leads -> selp (l_id l) = true.
+Proof.
+  intros maxid leads reqs (_ & _ & _ & Hwf & _) l Hl. rewrite Forall_forall in Hwf.
+  destruct (Hwf l Hl) as (He & Hid & _). apply selp_put_id; assumption.
+Qed.
+
+Lemma get_ids_sel : forall maxid leads reqs, queue_inv false maxid leads reqs ->
+  forall l, In l leads -> selg (l_id l) = true.
+Proof.
+  intros maxid leads reqs (_ & _ & _ & Hwf & _) l Hl. rewrite Forall_forall in Hwf.
+  destruct (Hwf l Hl) as (He & Hid & _). apply selg_get_id; assumption.
+Qed.
+
+Theorem subset_flags_gen : forall st n ids hs stat0,
+  nb_inv st -> no_shortcut st n -> 0 <= n ->
+  (hs = true \/ n <> Zlen (put_lead st) + Zlen (get_lead st)) ->
+  ex_err (extract_reqs st n ids hs stat0) = NC_NOERR ->
+  forall l', In l' (put_lead (ex_st (extract_reqs st n ids hs stat0)) ++
+                    get_lead (ex_st (extract_reqs st n ids hs stat0))) ->
+  (l_to_free l' = true <-> In (l_id l') ids).
+Proof.
+  intros st n ids hs stat0 Hinv Hns Hn Hhs Herr l' Hin.
+  destruct (subset_struct _ _ _ _ _ Hinv Hns Hn Hhs Herr)
+    as (pl1 & gl1 & stat1 & c1 & s1 & c2 & s2 & _ & _ & _ & -> & -> & Hc1 & Hc2 & _).
+  destruct Hinv as (Hp & Hg). apply in_app_or in Hin. destruct Hin as [Hin|Hin].
+  - eapply side_flag_iff; [| |exact Hc1|exact Hin]; [apply Hp|eapply put_ids_sel; exact Hp].
+  - eapply side_flag_iff; [| |exact Hc2|exact Hin]; [apply Hg|eapply get_ids_sel; exact Hg].
+Qed.
+
+Theorem subset_flags : forall st n ids stat0,
+  nb_inv st -> no_shortcut st n -> 0 <= n ->
+  ex_err (extract_reqs st n ids true stat0) = NC_NOERR ->
+  forall l', In l' (put_lead (ex_st (extract_reqs st n ids true stat0)) ++
+                    get_lead (ex_st (extract_reqs st n ids true stat0))) ->
+  (l_to_free l' = true <-> In (l_id l') ids).
+Proof.
+  intros st n ids stat0 Hinv Hns Hn Herr. eapply subset_flags_gen; try eassumption. left. reflexivity.
+Qed.
+
+Lemma side_status : forall sel leads ids leads2,
+  Forall (fun l => l_to_free l = false) leads ->
+  Forall2 co_rel (map (mark_lead sel ids 0 true) leads) leads2 ->
+  forall l' k, In l' leads2 -> l_to_free l' = true -> l_status l' = Some k ->
+  0 <= k < Zlen ids /\ znth ids k NC_REQ_NULL = l_id l'.
+Proof.
+  intros sel leads ids leads2 Hunf Hco l' k Hin Hf Hst.
+  destruct (w_F2_In_r _ _ _ _ _ _ Hco Hin) as (l1 & Hl1 & Hrel).
+  apply in_map_iff in Hl1. destruct Hl1 as (l & <- & Hl).
+  destruct (co_rel_same _ _ Hrel) as (Hs & Hf' & Hst').
+  rewrite Forall_forall in Hunf. rewrite Hf' in Hf. rewrite Hst' in Hst.
+  destruct (mark_lead_status sel ids 0 l k (Hunf l Hl) Hf Hst) as (Hk & Hz).
+  replace (k - 0) with k in Hz by lia.
+  rewrite <- (lead_same_id _ _ Hs), mark_lead_id. split; [lia|exact Hz].
+Qed.
+
+(* the status pointer of a completed request is the slot of the position that names it *)
+Theorem status_own_partial : forall st n ids stat0,
+  nb_inv st -> no_shortcut st n -> 0 <= n ->
+  ex_err (extract_reqs st n ids true stat0) = NC_NOERR ->
+  forall l' i, In l' (put_lead (ex_st (extract_reqs st n ids true stat0)) ++
+                      get_lead (ex_st (extract_reqs st n ids true stat0))) ->
+  l_to_free l' = true -> l_status l' = Some i ->
+  znth ids i NC_REQ_NULL = l_id l'.
+Proof.
+  intros st n ids stat0 Hinv Hns Hn Herr l' i Hin Hf Hst.
+  destruct (subset_struct _ _ _ _ _ Hinv Hns Hn (or_introl eq_refl) Herr)
+    as (pl1 & gl1 & stat1 & c1 & s1 & c2 & s2 & _ & _ & _ & -> & -> & Hc1 & Hc2 & _).
+  destruct Hinv as (Hp & Hg). apply in_app_or in Hin. destruct Hin as [Hin|Hin].
+  - eapply side_status; [|exact Hc1|exact Hin|exact Hf|exact Hst]. apply Hp.
+  - eapply side_status; [|exact Hc2|exact Hin|exact Hf|exact Hst]. apply Hg.
+Qed.
+
+Lemma sel_found : forall sel ids i hs leads leads1 c s,
+  NoDup (map l_id leads) -> Forall (fun l => l_to_free l = false) leads ->
+  mark_list sel ids i hs leads = Some (leads1, c, s) ->
+  forall x, In x ids -> sel x = true -> exists l1, find_flagged leads1 x = Some l1.
+Proof.
+  intros sel ids i hs leads leads1 c s Hnd Hunf Hm x Hx Hsx.
+  pose proof (mark_list_map _ _ _ _ _ _ _ _ Hnd Hm) as H1.
+  destruct (mark_list_pending _ _ _ _ _ _ _ _ Hnd Hm) as (Hp & _).
+  destruct (Hp x Hx Hsx) as (l & Hl & Hid & Hf).
+  assert (Hnd1 : NoDup (map l_id leads1)).
+  { rewrite H1, map_map. erewrite map_ext; [exact Hnd|]. intros a. apply mark_lead_id. }
+  exists (mark_lead sel ids i hs l). rewrite <- Hid, <- (mark_lead_id sel ids i hs l).
+  apply find_flagged_In; [exact Hnd1|rewrite H1; apply in_map; exact Hl|].
+  rewrite mark_lead_to_free, Hf. cbn [orb]. apply existsb_exists. exists x. split; [exact Hx|].
+  rewrite Hsx, Hid, Z.eqb_refl. reflexivity.
+Qed.
+
+(* every named id is reset; NULL ids stay NULL *)
+Theorem subset_ids_reset_gen : forall st n ids hs stat0,
+  nb_inv st -> no_shortcut st n -> 0 <= n ->
+  (hs = true \/ n <> Zlen (put_lead st) + Zlen (get_lead st)) ->
+  ex_err (extract_reqs st n ids hs stat0) = NC_NOERR ->
+  forall i, 0 <= i < Zlen ids -> znth (ex_ids (extract_reqs st n ids hs stat0)) i 0 = NC_REQ_NULL.
+Proof.
+  intros st n ids hs stat0 Hinv Hns Hn Hhs Herr i Hi.
+  destruct (subset_struct _ _ _ _ _ Hinv Hns Hn Hhs Herr)
+    as (pl1 & gl1 & stat1 & c1 & s1 & c2 & s2 & _ & Hm1 & Hm2 & _ & _ & _ & _ & -> & _).
+  destruct Hinv as ((Hnd1 & _ & _ & _ & Hu1) & (Hnd2 & _ & _ & _ & Hu2)).
+  rewrite (Proofs_Disk.znth_map _ _ _ 0 0 Hi).
+  pose proof (Proofs_Disk.znth_In ids i 0 Hi) as Hin. set (x := znth ids i 0) in *.
+  unfold reset_one. destruct (x =? NC_REQ_NULL) eqn:En; [lia|].
+  destruct (Z.rem x 2 =? 0) eqn:Ep.
+  - destruct (sel_found _ _ _ _ _ _ _ _ Hnd1 Hu1 Hm1 x Hin) as (l1 & ->); [|reflexivity].
+    unfold selp. rewrite En, Ep. reflexivity.
+  - destruct (sel_found _ _ _ _ _ _ _ _ Hnd2 Hu2 Hm2 x Hin) as (l1 & ->); [|reflexivity].
+    unfold selg. rewrite En, Ep. reflexivity.
+Qed.
+
+Theorem subset_ids_reset : forall st n ids stat0,
+  nb_inv st -> no_shortcut st n -> 0 <= n ->
+  ex_err (extract_reqs st n ids true stat0) = NC_NOERR ->
+  forall i, 0 <= i < Zlen ids -> znth (ex_ids (extract_reqs st n ids true stat0)) i 0 = NC_REQ_NULL.
+Proof.
+  intros st n ids stat0 Hinv Hns Hn Herr. eapply subset_ids_reset_gen; try eassumption. left. reflexivity.
+Qed.
+
+Theorem subset_statuses : forall st n ids stat0,
+  nb_inv st -> no_shortcut st n -> 0 <= n ->
+  ex_err (extract_reqs st n ids true stat0) = NC_NOERR ->
+  forall i, 0 <= i < Zlen ids -> Zlen stat0 = Zlen ids ->
+  znth (ex_stat (extract_reqs st n ids true stat0)) i 0 = NC_NOERR.
+Proof.
+  intros st n ids stat0 Hinv Hns Hn Herr i Hi Hlen.
+  destruct (subset_struct _ _ _ _ _ Hinv Hns Hn (or_introl eq_refl) Herr)
+    as (pl1 & gl1 & stat1 & c1 & s1 & c2 & s2 & Hm & _ & _ & _ & _ & _ & _ & _ & ->).
+  destruct (ex_mark_stat _ _ _ _ _ _ _ _ _ _ _ _ _ _ _ _ _ Hm ltac:(lia)) as (_ & Hin & _).
+  apply Hin; lia.
+Qed.
+
+(* success of the subset path: every non-NULL id names a pending request and occurs once *)
+Theorem subset_ids_pending : forall st n ids hs stat0,
+  nb_inv st -> no_shortcut st n -> 0 <= n ->
+  (hs = true \/ n <> Zlen (put_lead st) + Zlen (get_lead st)) ->
+  ex_err (extract_reqs st n ids hs stat0) = NC_NOERR ->
+  NoDup (filter (fun x => negb (x =? NC_REQ_NULL)) ids) /\
+  forall x, In x ids -> x <> NC_REQ_NULL -> exists l, In l (put_lead st ++ get_lead st) /\ l_id l = x.
+Proof.
+  intros st n ids hs stat0 Hinv Hns Hn Hhs Herr.
+  destruct (subset_struct _ _ _ _ _ Hinv Hns Hn Hhs Herr)
+    as (pl1 & gl1 & stat1 & c1 & s1 & c2 & s2 & _ & Hm1 & Hm2 & _).
+  destruct Hinv as ((Hnd1 & _) & (Hnd2 & _)).
+  destruct (mark_list_pending _ _ _ _ _ _ _ _ Hnd1 Hm1) as (Hp1 & Hn1 & _).
+  destruct (mark_list_pending _ _ _ _ _ _ _ _ Hnd2 Hm2) as (Hp2 & Hn2 & _).
+  split.
+  - clear - Hn1 Hn2. induction ids as [|x r IH]; [constructor|]. cbn [filter] in *.
+    unfold selp at 1 in Hn1. unfold selg at 1 in Hn2.
+    destruct (x =? NC_REQ_NULL) eqn:En; cbn [negb andb] in *; [apply IH; assumption|].
+    destruct (Z.rem x 2 =? 0) eqn:Ep; cbn [negb] in *.
+    + apply NoDup_cons_iff in Hn1. destruct Hn1 as (Hx & Hn1). constructor; [|apply IH; assumption].
+      intros Hin. apply Hx. apply filter_In in Hin. apply filter_In. split; [apply Hin|].
+      unfold selp. rewrite En, Ep. reflexivity.
+    + apply NoDup_cons_iff in Hn2. destruct Hn2 as (Hx & Hn2). constructor; [|apply IH; assumption].
+      intros Hin. apply Hx. apply filter_In in Hin. apply filter_In. split; [apply Hin|].
+      unfold selg. rewrite En, Ep. reflexivity.
+  - intros x Hx Hne. destruct (Z.rem x 2 =? 0) eqn:Ep.
+    + destruct (Hp1 x Hx) as (l & Hl & Hid & _).
+      { unfold selp. rewrite Ep. destruct (x =? NC_REQ_NULL) eqn:En; [lia|reflexivity]. }
+      exists l. split; [apply in_or_app; left; exact Hl|exact Hid].
+    + destruct (Hp2 x Hx) as (l & Hl & Hid & _).
+      { unfold selg. rewrite Ep. destruct (x =? NC_REQ_NULL) eqn:En; [lia|reflexivity]. }
+      exists l. split; [apply in_or_app; right; exact Hl|exact Hid].
+Qed.
+
+(* ====================================================================== *)
+(* W5. wait_one preserves the queue invariant                              *)
+(* ====================================================================== *)
+(* the state between extract_reqs and commit_post: flagged leads own nothing any more, the kept
+   leads own consecutive slices of the coalesced queue, whose entries still point to the OLD
+   index of their lead (position in the full lead list) *)
+Definition mid_inv (isput : bool) (maxid : Z) (leads : list lead) (reqs : list req) : Prop :=
+  NoDup (map l_id leads) /\ Forall (fun l => l_id l <= maxid) leads /\
+  (exists segs, reqs = concat segs /\ lay l_to_free leads segs 0 0) /\
+  Forall (fun l => l_to_free l = false -> lead_wf isput reqs l) leads.
+
+Lemma xrel_ids : forall reqs reqs2 leads leads2, Forall2 (xrel reqs reqs2) leads leads2 ->
+  map l_id leads = map l_id leads2.
+Proof.
+  intros reqs reqs2 leads leads2 H. eapply F2_same_ids; [|exact H]. intros x y (Hs & _). apply Hs.
+Qed.
+
+Lemma side_mid : forall isput maxid leads reqs leads2 reqs2 ext nl,
+  queue_inv isput maxid leads reqs -> side_ok leads reqs leads2 reqs2 ext nl ->
+  mid_inv isput maxid leads2 reqs2.
+Proof.
+  intros isput maxid leads reqs leads2 reqs2 ext nl (Hnd & Hmax & _ & Hwf & _) (HF & _ & _ & Hsegs).
+  split; [rewrite <- (xrel_ids _ _ _ _ HF); exact Hnd|]. split; [|split; [exact Hsegs|]].
+  - apply Forall_forall. intros l2 Hl2. destruct (w_F2_In_r _ _ _ _ _ _ HF Hl2) as (l & Hl & (Hs & _)).
+    rewrite Forall_forall in Hmax. rewrite <- (lead_same_id _ _ Hs). apply Hmax. exact Hl.
+  - apply Forall_forall. intros l2 Hl2 Hf. destruct (w_F2_In_r _ _ _ _ _ _ HF Hl2) as (l & Hl & (Hs & Hr)).
+    rewrite Forall_forall in Hwf. specialize (Hwf l Hl). rewrite lead_wf_is_seg in *.
+    rewrite (Hr Hf). eapply lead_wf_seg_indep; [exact Hs|reflexivity|exact Hwf].
+Qed.
+
+Lemma w_F2_Forall_left : forall A B (P : A -> Prop) (a : list A) (b : list B),
+  Forall2 (fun x _ => P x) a b -> Forall P a.
+Proof. intros A B P a b H. induction H; constructor; assumption. Qed.
+
+Lemma req_core_set_lead : forall sl k, map req_core (map (fun q => r_set_lead q k) sl) = map req_core sl.
+Proof. intros sl k. rewrite map_map. apply map_ext. intros q. reflexivity. Qed.
+
+(* one queue through commit_post *)
+Definition post_side (nl : Z) (leads : list lead) (reqs : list req) : list lead * list req :=
+  if nl >? 0 then
+    let '(pl, pr) := compact_leads leads reqs 0 0 in (pl, match pl with [] => [] | _ => pr end)
+  else (leads, reqs).
+
+Lemma post_side_ok : forall isput maxid leads reqs nl ls rs,
+  mid_inv isput maxid leads reqs -> nl = Zlen (flagged leads) ->
+  post_side nl leads reqs = (ls, rs) ->
+  queue_inv isput maxid ls rs /\ ls = kept leads /\
+  Forall (fun l => map req_core (lead_reqs rs l) = map req_core (lead_reqs reqs l)) ls.
+Proof.
+  intros isput maxid leads reqs nl ls rs (Hnd & Hmax & (segs & Hc & Hlay) & Hwf) Hnl Hps.
+  unfold post_side in Hps.
+  pose proof (lay_lead_reqs l_to_free leads segs [] 0 Hlay) as Hsl. cbn [app] in Hsl. rewrite <- Hc in Hsl.
+  destruct (nl >? 0) eqn:En.
+  - destruct (compact_lay leads segs [] 0 0 Hlay ltac:(lia)) as (Hcl & Hlay3). cbn [app] in Hcl.
+    rewrite <- Hc in Hcl. rewrite Hcl in Hps.
+    set (cs := compact_segs leads segs 0 0) in *.
+    assert (Hrs : rs = concat cs /\ ls = kept leads).
+    { destruct (kept leads) as [|k0 kr] eqn:Ek.
+      - inversion Hps; subst ls rs. apply lay_nil_leads in Hlay3. rewrite Hlay3. split; reflexivity.
+      - inversion Hps; subst ls rs. split; reflexivity. }
+    destruct Hrs as (-> & ->). clear Hps.
+    pose proof (lay_lead_reqs noskip (kept leads) cs [] 0 Hlay3) as Hsl3. cbn [app] in Hsl3.
+    (* properties of the segments that survive compaction *)
+    assert (HP : Forall2 (fun l sl => lead_wf_seg isput l sl /\ map req_core sl = map req_core (lead_reqs reqs l))
+                         (kept leads) cs).
+    { apply (compact_segs_F2 (fun l sl => lead_wf_seg isput l sl /\ map req_core sl = map req_core (lead_reqs reqs l))).
+      - intros l sl k (H1 & H2). split; [apply lead_wf_seg_set_lead; exact H1|].
+        rewrite req_core_set_lead. exact H2.
+      - eapply w_F2_impl; [|exact (w_F2_Forall_l _ _ _ _ _ _ Hwf Hsl)].
+        intros l sl _ _ (Hw & He) Hf. specialize (Hw Hf). specialize (He Hf). rewrite lead_wf_is_seg in Hw.
+        rewrite <- He. split; [exact Hw|reflexivity]. }
+    pose proof (w_F2_and _ _ _ _ _ _ Hsl3 HP) as HQ.
+    split; [|split; [reflexivity|]].
+    + split; [apply w_NoDup_map_filter; exact Hnd|]. split; [|split; [|split]].
+      * apply Forall_forall. intros l Hl. apply filter_In in Hl. rewrite Forall_forall in Hmax. apply Hmax. apply Hl.
+      * pose proof (lay_slices_ok noskip (kept leads) cs [] 0) as Hso. cbn [app] in Hso. apply Hso; [|exact Hlay3].
+        apply Forall_forall. intros l _. reflexivity.
+      * eapply w_F2_Forall_left. eapply w_F2_impl; [|exact HQ].
+        intros l sl _ _ (He & Hw & _). rewrite lead_wf_is_seg. rewrite (He eq_refl). exact Hw.
+      * apply kept_unflagged.
+    + eapply w_F2_Forall_left. eapply w_F2_impl; [|exact HQ].
+      intros l sl _ _ (He & _ & Hcore). rewrite (He eq_refl). exact Hcore.
+  - inversion Hps; subst ls rs. clear Hps.
+    assert (Hunf : Forall (fun l => l_to_free l = false) leads).
+    { apply w_filter_nil_Forall. apply Proofs_Disk.Zlen_zero_nil.
+      pose proof (Proofs_Disk.Zlen_nonneg (flagged leads)). unfold flagged in *. lia. }
+    split; [|split; [symmetry; apply kept_all; exact Hunf|]].
+    + split; [exact Hnd|]. split; [exact Hmax|]. split; [|split; [|exact Hunf]].
+      * pose proof (lay_slices_ok l_to_free leads segs [] 0 Hunf Hlay) as Hso. cbn [app] in Hso.
+        rewrite <- Hc in Hso. exact Hso.
+      * rewrite Forall_forall in *. intros l Hl. apply Hwf; [exact Hl|apply Hunf; exact Hl].
+    + apply Forall_forall. intros l _. reflexivity.
+Qed.
+
+(* commit_io does not touch the queues *)
+Lemma commit_io_fields : forall sr ss st pe ge dw dr nn file,
+  put_lead (fst (commit_io sr ss st pe ge dw dr nn file)) = put_lead st /\
+  put_reqs (fst (commit_io sr ss st pe ge dw dr nn file)) = put_reqs st /\
+  get_lead (fst (commit_io sr ss st pe ge dw dr nn file)) = get_lead st /\
+  get_reqs (fst (commit_io sr ss st pe ge dw dr nn file)) = get_reqs st /\
+  maxPutID (fst (commit_io sr ss st pe ge dw dr nn file)) = maxPutID st /\
+  maxGetID (fst (commit_io sr ss st pe ge dw dr nn file)) = maxGetID st.
+Proof.
+  intros sr ss st pe ge dw dr nn file. unfold commit_io. cbv zeta. cbn [fst].
+  destruct (dw && (st_numrecs st <? nn)); destruct dr; repeat split; reflexivity.
+Qed.
+
+Lemma commit_post_fields : forall st nwl nrl,
+  (put_lead (fst (commit_post st nwl nrl)), put_reqs (fst (commit_post st nwl nrl)))
+    = post_side nwl (put_lead st) (put_reqs st) /\
+  (get_lead (fst (commit_post st nwl nrl)), get_reqs (fst (commit_post st nwl nrl)))
+    = post_side nrl (get_lead st) (get_reqs st) /\
+  maxPutID (fst (commit_post st nwl nrl)) = maxPutID st /\
+  maxGetID (fst (commit_post st nwl nrl)) = maxGetID st /\
+  snd (commit_post st nwl nrl) =
+    (if nwl >? 0 then flat_map (fun l => (if l_swapbuf l then [EvSwapBack (l_tag l)] else []) ++ [EvPutDone (l_tag l)])
+                               (filter l_to_free (put_lead st)) else []) ++
+    (if nrl >? 0 then map (fun l => EvGetDone (l_tag l) (l_xaddr l) (l_nelems l * g_xsz (l_geom l)) (l_status l))
+                          (filter l_to_free (get_lead st)) else []).
+Proof.
+  intros st nwl nrl. unfold commit_post, post_side.
+  destruct (nwl >? 0).
+  - destruct (compact_leads (put_lead st) (put_reqs st) 0 0) as [pl pr].
+    cbn [get_lead get_reqs set_abuf set_put].
+    destruct (nrl >? 0).
+    + destruct (compact_leads (get_lead st) (get_reqs st) 0 0) as [gl gr]. cbn. repeat split; reflexivity.
+    + cbn. rewrite app_nil_r. repeat split; reflexivity.
+  - destruct (nrl >? 0).
+    + destruct (compact_leads (get_lead st) (get_reqs st) 0 0) as [gl gr]. cbn. repeat split; reflexivity.
+    + cbn. repeat split; reflexivity.
+Qed.
+
+(* the structure of a successful wait_one *)
+Lemma wait_one_struct : forall sr ss st a file,
+  wr_rc (fst (wait_one sr ss st a file)) = NC_NOERR ->
+  ex_err (extract_reqs st (wa_n a) (wa_ids a) (wa_has_stat a) (wa_stat0 a)) = NC_NOERR /\
+  exists st2,
+    put_lead st2 = put_lead (ex_st (extract_reqs st (wa_n a) (wa_ids a) (wa_has_stat a) (wa_stat0 a))) /\
+    put_reqs st2 = put_reqs (ex_st (extract_reqs st (wa_n a) (wa_ids a) (wa_has_stat a) (wa_stat0 a))) /\
+    get_lead st2 = get_lead (ex_st (extract_reqs st (wa_n a) (wa_ids a) (wa_has_stat a) (wa_stat0 a))) /\
+    get_reqs st2 = get_reqs (ex_st (extract_reqs st (wa_n a) (wa_ids a) (wa_has_stat a) (wa_stat0 a))) /\
+    maxPutID st2 = maxPutID (ex_st (extract_reqs st (wa_n a) (wa_ids a) (wa_has_stat a) (wa_stat0 a))) /\
+    maxGetID st2 = maxGetID (ex_st (extract_reqs st (wa_n a) (wa_ids a) (wa_has_stat a) (wa_stat0 a))) /\
+    wr_st (fst (wait_one sr ss st a file)) =
+      fst (commit_post st2 (ex_nwl (extract_reqs st (wa_n a) (wa_ids a) (wa_has_stat a) (wa_stat0 a)))
+                           (ex_nrl (extract_reqs st (wa_n a) (wa_ids a) (wa_has_stat a) (wa_stat0 a)))) /\
+    wr_ev (fst (wait_one sr ss st a file)) =
+      snd (commit_post st2 (ex_nwl (extract_reqs st (wa_n a) (wa_ids a) (wa_has_stat a) (wa_stat0 a)))
+                           (ex_nrl (extract_reqs st (wa_n a) (wa_ids a) (wa_has_stat a) (wa_stat0 a)))).
+Proof.
+  intros sr ss st a file. unfold wait_one. cbv zeta.
+  set (ex := extract_reqs st (wa_n a) (wa_ids a) (wa_has_stat a) (wa_stat0 a)).
+  destruct (negb (ex_err ex =? NC_NOERR)) eqn:Ee.
+  - cbn [fst wr_rc]. intros Hrc. lia.
+  - intros _. split; [lia|].
+    pose proof (commit_io_fields sr ss (ex_st ex) (ex_put ex) (ex_get ex) (0 <? Zlen (ex_put ex))
+                  (0 <? Zlen (ex_get ex)) (newnumrecs_loop (ex_st ex) (ex_nwl ex)) file) as Hio.
+    destruct (commit_io sr ss (ex_st ex) (ex_put ex) (ex_get ex) (0 <? Zlen (ex_put ex))
+                (0 <? Zlen (ex_get ex)) (newnumrecs_loop (ex_st ex) (ex_nwl ex)) file) as [st2 file'].
+    cbn [fst] in Hio. destruct Hio as (H1 & H2 & H3 & H4 & H5 & H6).
+    exists st2. destruct (commit_post st2 (ex_nwl ex) (ex_nrl ex)) as [st3 ev].
+    cbn [fst snd wr_st wr_ev]. repeat split; assumption.
+Qed.
+
+Theorem wait_one_inv : forall sr ss st a file, nb_inv st ->
+  wr_rc (fst (wait_one sr ss st a file)) = NC_NOERR ->
+  nb_inv (wr_st (fst (wait_one sr ss st a file))).
+Proof.
+  intros sr ss st a file Hinv Hrc.
+  destruct (wait_one_struct sr ss st a file Hrc) as (Herr & st2 & H1 & H2 & H3 & H4 & H5 & H6 & Hst & _).
+  destruct (extract_sides _ _ _ _ _ Hinv Herr) as (Hsp & Hsg & Hmp & Hmg & _).
+  rewrite Hst.
+  destruct (commit_post_fields st2 (ex_nwl (extract_reqs st (wa_n a) (wa_ids a) (wa_has_stat a) (wa_stat0 a)))
+              (ex_nrl (extract_reqs st (wa_n a) (wa_ids a) (wa_has_stat a) (wa_stat0 a))))
+    as (Fp & Fg & Fmp & Fmg & _).
+  rewrite H1, H2 in Fp. rewrite H3, H4 in Fg.
+  destruct Hinv as (Hp & Hg).
+  pose proof (side_mid _ _ _ _ _ _ _ _ Hp Hsp) as Mp. pose proof (side_mid _ _ _ _ _ _ _ _ Hg Hsg) as Mg.
+  destruct Hsp as (_ & _ & Hnwl & _). destruct Hsg as (_ & _ & Hnrl & _).
+  symmetry in Fp, Fg.
+  destruct (post_side_ok _ _ _ _ _ _ _ Mp Hnwl Fp) as (Qp & _).
+  destruct (post_side_ok _ _ _ _ _ _ _ Mg Hnrl Fg) as (Qg & _).
+  split.
+  - rewrite Fmp, H5, Hmp. exact Qp.
+  - rewrite Fmg, H6, Hmg. exact Qg.
+Qed.
+
+(* the intermediate invariant, as a theorem about extract_reqs *)
+Theorem extract_mid_inv : forall st n ids hs stat0, nb_inv st ->
+  ex_err (extract_reqs st n ids hs stat0) = NC_NOERR ->
+  mid_inv true (maxPutID st) (put_lead (ex_st (extract_reqs st n ids hs stat0)))
+          (put_reqs (ex_st (extract_reqs st n ids hs stat0))) /\
+  mid_inv false (maxGetID st) (get_lead (ex_st (extract_reqs st n ids hs stat0)))
+          (get_reqs (ex_st (extract_reqs st n ids hs stat0))).
+Proof.
+  intros st n ids hs stat0 Hinv Herr.
+  destruct (extract_sides _ _ _ _ _ Hinv Herr) as (Hsp & Hsg & _). destruct Hinv as (Hp & Hg).
+  split; eapply side_mid; eassumption.
+Qed.
+
+(* ====================================================================== *)
+(* W6. frame                                                               *)
+(* ====================================================================== *)
+Lemma w_NoDup_map_inj : forall A B (f : A -> B) l x y,
+  NoDup (map f l) -> In x l -> In y l -> f x = f y -> x = y.
+Proof.
+  intros A B f l x y. induction l as [|a l IH]; intros Hnd Hx Hy E; [destruct Hx|].
+  cbn [map] in Hnd. apply NoDup_cons_iff in Hnd. destruct Hnd as (Ha & Hnd).
+  destruct Hx as [->|Hx]; destruct Hy as [->|Hy].
+  - reflexivity.
+  - exfalso. apply Ha. rewrite E. apply in_map. exact Hy.
+  - exfalso. apply Ha. rewrite <- E. apply in_map. exact Hx.
+  - apply IH; assumption.
+Qed.
+
+(* one queue: a lead whose partner is not flagged survives with its requests *)
+Lemma frame_side : forall isput maxid leads reqs leads2 reqs2 ext nl ls rs l,
+  queue_inv isput maxid leads reqs -> side_ok leads reqs leads2 reqs2 ext nl ->
+  post_side nl leads2 reqs2 = (ls, rs) ->
+  In l leads -> (forall l1, In l1 leads2 -> l_id l1 = l_id l -> l_to_free l1 = false) ->
+  exists l', In l' ls /\ lead_same l l' /\ l_to_free l' = false /\
+             map req_core (lead_reqs rs l') = map req_core (lead_reqs reqs l).
+Proof.
+  intros isput maxid leads reqs leads2 reqs2 ext nl ls rs l Hq Hs Hps Hl Hnf.
+  pose proof (side_mid _ _ _ _ _ _ _ _ Hq Hs) as Hm.
+  destruct Hs as (HF & _ & Hnl & _).
+  destruct (post_side_ok _ _ _ _ _ _ _ Hm Hnl Hps) as (_ & Hls & Hcore).
+  destruct (w_F2_In_l _ _ _ _ _ _ HF Hl) as (l2 & Hl2 & (Hsame & Hr)).
+  assert (Hf2 : l_to_free l2 = false).
+  { apply Hnf; [exact Hl2|]. symmetry. apply lead_same_id. exact Hsame. }
+  exists l2. assert (Hin : In l2 ls).
+  { rewrite Hls. apply filter_In. split; [exact Hl2|]. rewrite Hf2. reflexivity. }
+  split; [exact Hin|]. split; [exact Hsame|]. split; [exact Hf2|].
+  rewrite Forall_forall in Hcore. rewrite (Hcore l2 Hin), (Hr Hf2). reflexivity.
+Qed.
+
+Theorem wait_subset_frame_partial : forall sr ss st a file, nb_inv st ->
+  wr_rc (fst (wait_one sr ss st a file)) = NC_NOERR ->
+  forall l, In l (put_lead st ++ get_lead st) ->
+  (forall l1, In l1 (put_lead (ex_st (extract_reqs st (wa_n a) (wa_ids a) (wa_has_stat a) (wa_stat0 a))) ++
+                     get_lead (ex_st (extract_reqs st (wa_n a) (wa_ids a) (wa_has_stat a) (wa_stat0 a)))) ->
+              l_id l1 = l_id l -> l_to_free l1 = false) ->
+  exists l', In l' (put_lead (wr_st (fst (wait_one sr ss st a file))) ++
+                    get_lead (wr_st (fst (wait_one sr ss st a file)))) /\
+    lead_same l l' /\ l_to_free l' = false /\
+    map (fun q => (r_start q, r_count q, r_nelems q, r_xaddr q))
+        (lead_reqs (if Z.even (l_id l) then put_reqs (wr_st (fst (wait_one sr ss st a file)))
+                    else get_reqs (wr_st (fst (wait_one sr ss st a file)))) l') =
+    map (fun q => (r_start q, r_count q, r_nelems q, r_xaddr q))
+        (lead_reqs (if Z.even (l_id l) then put_reqs st else get_reqs st) l).
+Proof.
+  intros sr ss st a file Hinv Hrc l Hl Hnf.
+  destruct (wait_one_struct sr ss st a file Hrc) as (Herr & st2 & H1 & H2 & H3 & H4 & H5 & H6 & Hst & _).
+  destruct (extract_sides _ _ _ _ _ Hinv Herr) as (Hsp & Hsg & _).
+  rewrite Hst.
+  destruct (commit_post_fields st2 (ex_nwl (extract_reqs st (wa_n a) (wa_ids a) (wa_has_stat a) (wa_stat0 a)))
+              (ex_nrl (extract_reqs st (wa_n a) (wa_ids a) (wa_has_stat a) (wa_stat0 a))))
+    as (Fp & Fg & _).
+  rewrite H1, H2 in Fp. rewrite H3, H4 in Fg. symmetry in Fp, Fg.
+  destruct Hinv as (Hp & Hg).
+  apply in_app_or in Hl. destruct Hl as [Hl|Hl].
+  - assert (He : Z.even (l_id l) = true).
+    { destruct Hp as (_ & _ & _ & Hwf & _). rewrite Forall_forall in Hwf. apply (Hwf l Hl). }
+    rewrite He.
+    destruct (frame_side _ _ _ _ _ _ _ _ _ _ l Hp Hsp Fp Hl) as (l' & Hin & Hsame & Hf & Hcore).
+    { intros l1 Hl1. apply Hnf. apply in_or_app. left. exact Hl1. }
+    exists l'. split; [apply in_or_app; left; exact Hin|]. split; [exact Hsame|]. split; [exact Hf|exact Hcore].
+  - assert (He : Z.even (l_id l) = false).
+    { destruct Hg as (_ & _ & _ & Hwf & _). rewrite Forall_forall in Hwf. apply (Hwf l Hl). }
+    rewrite He.
+    destruct (frame_side _ _ _ _ _ _ _ _ _ _ l Hg Hsg Fg Hl) as (l' & Hin & Hsame & Hf & Hcore).
+    { intros l1 Hl1. apply Hnf. apply in_or_app. right. exact Hl1. }
+    exists l'. split; [apply in_or_app; right; exact Hin|]. split; [exact Hsame|]. split; [exact Hf|exact Hcore].
+Qed.
+
+(* the leads of the state after a successful wait are the unflagged leads of the extraction *)
+Lemma wait_one_leads : forall sr ss st a file, nb_inv st ->
+  wr_rc (fst (wait_one sr ss st a file)) = NC_NOERR ->
+  put_lead (wr_st (fst (wait_one sr ss st a file))) =
+    kept (put_lead (ex_st (extract_reqs st (wa_n a) (wa_ids a) (wa_has_stat a) (wa_stat0 a)))) /\
+  get_lead (wr_st (fst (wait_one sr ss st a file))) =
+    kept (get_lead (ex_st (extract_reqs st (wa_n a) (wa_ids a) (wa_has_stat a) (wa_stat0 a)))).
+Proof.
+  intros sr ss st a file Hinv Hrc.
+  destruct (wait_one_struct sr ss st a file Hrc) as (Herr & st2 & H1 & H2 & H3 & H4 & H5 & H6 & Hst & _).
+  destruct (extract_sides _ _ _ _ _ Hinv Herr) as (Hsp & Hsg & _).
+  rewrite Hst.
+  destruct (commit_post_fields st2 (ex_nwl (extract_reqs st (wa_n a) (wa_ids a) (wa_has_stat a) (wa_stat0 a)))
+              (ex_nrl (extract_reqs st (wa_n a) (wa_ids a) (wa_has_stat a) (wa_stat0 a))))
+    as (Fp & Fg & _).
+  rewrite H1, H2 in Fp. rewrite H3, H4 in Fg. symmetry in Fp, Fg.
+  destruct Hinv as (Hp & Hg).
+  pose proof (side_mid _ _ _ _ _ _ _ _ Hp Hsp) as Mp. pose proof (side_mid _ _ _ _ _ _ _ _ Hg Hsg) as Mg.
+  destruct Hsp as (_ & _ & Hnwl & _). destruct Hsg as (_ & _ & Hnrl & _).
+  destruct (post_side_ok _ _ _ _ _ _ _ Mp Hnwl Fp) as (_ & Ep & _).
+  destruct (post_side_ok _ _ _ _ _ _ _ Mg Hnrl Fg) as (_ & Eg & _).
+  split; assumption.
+Qed.
+
+Theorem wait_nreqs : forall sr ss st a file, nb_inv st ->
+  wr_rc (fst (wait_one sr ss st a file)) = NC_NOERR ->
+  nreqs (wr_st (fst (wait_one sr ss st a file))) =
+    nreqs st
+    - Zlen (flagged (put_lead (ex_st (extract_reqs st (wa_n a) (wa_ids a) (wa_has_stat a) (wa_stat0 a)))))
+    - Zlen (flagged (get_lead (ex_st (extract_reqs st (wa_n a) (wa_ids a) (wa_has_stat a) (wa_stat0 a))))).
+Proof.
+  intros sr ss st a file Hinv Hrc.
+  destruct (wait_one_leads sr ss st a file Hinv Hrc) as (Ep & Eg).
+  destruct (extract_leads_same st (wa_n a) (wa_ids a) (wa_has_stat a) (wa_stat0 a)) as (Sp & Sg).
+  unfold nreqs. rewrite Ep, Eg, (w_F2_len _ _ _ _ _ Sp), (w_F2_len _ _ _ _ _ Sg).
+  unfold kept, flagged.
+  pose proof (w_Zlen_filter_split _ l_to_free (put_lead (ex_st (extract_reqs st (wa_n a) (wa_ids a) (wa_has_stat a) (wa_stat0 a))))).
+  pose proof (w_Zlen_filter_split _ l_to_free (get_lead (ex_st (extract_reqs st (wa_n a) (wa_ids a) (wa_has_stat a) (wa_stat0 a))))).
+  lia.
+Qed.
+
+(* the ids of the completed requests do not occur in the queues any more *)
+Theorem wait_completed_gone : forall sr ss st a file, nb_inv st ->
+  wr_rc (fst (wait_one sr ss st a file)) = NC_NOERR ->
+  forall l2, In l2 (flagged (put_lead (ex_st (extract_reqs st (wa_n a) (wa_ids a) (wa_has_stat a) (wa_stat0 a)))) ++
+                    flagged (get_lead (ex_st (extract_reqs st (wa_n a) (wa_ids a) (wa_has_stat a) (wa_stat0 a))))) ->
+  ~ In (l_id l2) (map l_id (put_lead (wr_st (fst (wait_one sr ss st a file))) ++
+                            get_lead (wr_st (fst (wait_one sr ss st a file))))).
+Proof.
+  intros sr ss st a file Hinv Hrc l2 Hl2 Hin.
+  destruct (wait_one_leads sr ss st a file Hinv Hrc) as (Ep & Eg). rewrite Ep, Eg in Hin. clear Ep Eg.
+  destruct (extract_leads_same st (wa_n a) (wa_ids a) (wa_has_stat a) (wa_stat0 a)) as (Sp & Sg).
+  set (pl2 := put_lead (ex_st (extract_reqs st (wa_n a) (wa_ids a) (wa_has_stat a) (wa_stat0 a)))) in *.
+  set (gl2 := get_lead (ex_st (extract_reqs st (wa_n a) (wa_ids a) (wa_has_stat a) (wa_stat0 a)))) in *.
+  destruct Hinv as ((Hndp & _ & _ & Hwfp & _) & (Hndg & _ & _ & Hwfg & _)).
+  rewrite Forall_forall in Hwfp, Hwfg.
+  assert (Hevp : forall x, In x pl2 -> Z.even (l_id x) = true).
+  { intros x Hx. destruct (w_F2_In_r _ _ _ _ _ _ Sp Hx) as (l & Hl & Hs). rewrite <- (lead_same_id _ _ Hs). apply (Hwfp l Hl). }
+  assert (Hevg : forall x, In x gl2 -> Z.even (l_id x) = false).
+  { intros x Hx. destruct (w_F2_In_r _ _ _ _ _ _ Sg Hx) as (l & Hl & Hs). rewrite <- (lead_same_id _ _ Hs). apply (Hwfg l Hl). }
+  assert (Hndp2 : NoDup (map l_id pl2)).
+  { rewrite <- (F2_same_ids lead_same _ _ lead_same_id Sp). exact Hndp. }
+  assert (Hndg2 : NoDup (map l_id gl2)).
+  { rewrite <- (F2_same_ids lead_same _ _ lead_same_id Sg). exact Hndg. }
+  apply in_map_iff in Hin. destruct Hin as (l3 & Hid & Hl3).
+  unfold flagged, kept in *.
+  apply in_app_or in Hl2. apply in_app_or in Hl3.
+  destruct Hl2 as [Hl2|Hl2]; apply filter_In in Hl2; destruct Hl2 as (Hl2 & Hf2);
+    destruct Hl3 as [Hl3|Hl3]; apply filter_In in Hl3; destruct Hl3 as (Hl3 & Hf3).
+  - assert (l3 = l2) by (eapply w_NoDup_map_inj; [exact Hndp2| | |]; assumption). subst l3.
+    rewrite Hf2 in Hf3. discriminate Hf3.
+  - pose proof (Hevp _ Hl2) as E2. pose proof (Hevg _ Hl3) as E3. rewrite Hid in E3. congruence.
+  - pose proof (Hevg _ Hl2) as E2. pose proof (Hevp _ Hl3) as E3. rewrite Hid in E3. congruence.
+  - assert (l3 = l2) by (eapply w_NoDup_map_inj; [exact Hndg2| | |]; assumption). subst l3.
+    rewrite Hf2 in Hf3. discriminate Hf3.
+Qed.
+
+(* ====================================================================== *)
+(* W7. events                                                              *)
+(* ====================================================================== *)
+Theorem wait_events_put : forall sr ss st a file, nb_inv st ->
+  wr_rc (fst (wait_one sr ss st a file)) = NC_NOERR ->
+  forall l', In l' (flagged (put_lead (ex_st (extract_reqs st (wa_n a) (wa_ids a) (wa_has_stat a) (wa_stat0 a))))) ->
+  In (EvPutDone (l_tag l')) (wr_ev (fst (wait_one sr ss st a file))).
+Proof.
+  intros sr ss st a file Hinv Hrc l' Hl'.
+  destruct (wait_one_struct sr ss st a file Hrc) as (Herr & st2 & H1 & _ & _ & _ & _ & _ & _ & Hev).
+  destruct (extract_sides _ _ _ _ _ Hinv Herr) as ((_ & _ & Hnwl & _) & _).
+  destruct (commit_post_fields st2 (ex_nwl (extract_reqs st (wa_n a) (wa_ids a) (wa_has_stat a) (wa_stat0 a)))
+              (ex_nrl (extract_reqs st (wa_n a) (wa_ids a) (wa_has_stat a) (wa_stat0 a))))
+    as (_ & _ & _ & _ & Fev).
+  rewrite Hev, Fev, H1. apply in_or_app. left.
+  assert (Hpos : 0 < Zlen (flagged (put_lead (ex_st (extract_reqs st (wa_n a) (wa_ids a) (wa_has_stat a) (wa_stat0 a)))))).
+  { apply w_Zlen_pos. intros E. rewrite E in Hl'. destruct Hl'. }
+  rewrite Hnwl. clear Fev. match goal with |- context [if ?c then _ else _] => destruct c eqn:E end; [|lia].
+  apply in_flat_map. exists l'. split; [exact Hl'|]. apply in_or_app. right. left. reflexivity.
+Qed.
+
+Theorem wait_events_get : forall sr ss st a file, nb_inv st ->
+  wr_rc (fst (wait_one sr ss st a file)) = NC_NOERR ->
+  forall l', In l' (flagged (get_lead (ex_st (extract_reqs st (wa_n a) (wa_ids a) (wa_has_stat a) (wa_stat0 a))))) ->
+  In (EvGetDone (l_tag l') (l_xaddr l') (l_nelems l' * g_xsz (l_geom l')) (l_status l'))
+     (wr_ev (fst (wait_one sr ss st a file))).
+Proof.
+  intros sr ss st a file Hinv Hrc l' Hl'.
+  destruct (wait_one_struct sr ss st a file Hrc) as (Herr & st2 & _ & _ & H3 & _ & _ & _ & _ & Hev).
+  destruct (extract_sides _ _ _ _ _ Hinv Herr) as (_ & (_ & _ & Hnrl & _) & _).
+  destruct (commit_post_fields st2 (ex_nwl (extract_reqs st (wa_n a) (wa_ids a) (wa_has_stat a) (wa_stat0 a)))
+              (ex_nrl (extract_reqs st (wa_n a) (wa_ids a) (wa_has_stat a) (wa_stat0 a))))
+    as (_ & _ & _ & _ & Fev).
+  rewrite Hev, Fev, H3. apply in_or_app. right.
+  assert (Hpos : 0 < Zlen (flagged (get_lead (ex_st (extract_reqs st (wa_n a) (wa_ids a) (wa_has_stat a) (wa_stat0 a)))))).
+  { apply w_Zlen_pos. intros E. rewrite E in Hl'. destruct Hl'. }
+  rewrite Hnrl. clear Fev. match goal with |- context [if ?c then _ else _] => destruct c eqn:E end; [|lia].
+  apply in_map_iff. exists l'. split; [reflexivity|exact Hl'].
+Qed.
+
+(* ====================================================================== *)
+(* Examples: the hypotheses are satisfiable                                *)
+(* ====================================================================== *)
+(* two puts (the second strided) and a get on a 4x5x6 int variable *)
+Definition w_xg : geom := mkgeom 1024 4 [4;5;6] 0 0.
+Definition w_xs1 : nbstate := fst (fst (post_varm init_state KIput w_xg [0;0;0] [1;2;2] None 5000 [] false 1)).
+Definition w_xs2 : nbstate := fst (fst (post_varm w_xs1 KIget w_xg [1;1;1] [1;1;3] None 6000 [] false 2)).
+Definition w_xs3 : nbstate := fst (fst (post_varm w_xs2 KIput w_xg [2;0;0] [1;1;2] (Some [1;1;2]) 7000 [] false 3)).
+
+Ltac w_lit t := let x := eval vm_compute in t in change t with x.
+Ltac w_atom := solve [ cbn; lia | vm_compute; reflexivity | vm_compute; intros; discriminate
+                     | cbn; intuition lia ].
+Ltac w_conc :=
+  repeat match goal with
+  | |- _ \/ _ => first [left; solve [w_conc] | right; solve [w_conc]]
+  | |- Forall _ _ => constructor
+  | |- NoDup _ => constructor
+  | |- _ => split
+  | |- _ => w_atom
+  end.
+
+Example w_xs3_ids : map l_id (put_lead w_xs3) = [0; 2] /\ map l_id (get_lead w_xs3) = [1].
+Proof. vm_compute. split; reflexivity. Qed.
+
+Example w_xs3_inv : nb_inv w_xs3.
+Proof.
+  unfold nb_inv, queue_inv.
+  w_lit (put_lead w_xs3). w_lit (put_reqs w_xs3). w_lit (get_lead w_xs3). w_lit (get_reqs w_xs3).
+  w_lit (maxPutID w_xs3). w_lit (maxGetID w_xs3).
+  w_conc.
+Qed.
+
+(* W2, W3, W5 (all paths): wait for the second put and the get, with statuses *)
+Example w_xs3_subset_hyps :
+  nb_inv w_xs3 /\ no_shortcut w_xs3 2 /\ 0 <= 2 /\
+  ex_err (extract_reqs w_xs3 2 [2; 1] true [7; 7]) = NC_NOERR.
+Proof.
+  split; [exact w_xs3_inv|]. split; [|split; [lia|vm_compute; reflexivity]].
+  unfold no_shortcut. vm_compute. split; intros (H & _); discriminate H.
+Qed.
+
+(* ... what W4 says about it: ids reset, statuses NC_NOERR, status pointers own their slot *)
+Example w_xs3_subset_result :
+  ex_ids (extract_reqs w_xs3 2 [2; 1] true [7; 7]) = [NC_REQ_NULL; NC_REQ_NULL] /\
+  ex_stat (extract_reqs w_xs3 2 [2; 1] true [7; 7]) = [NC_NOERR; NC_NOERR] /\
+  map (fun l => (l_id l, l_to_free l, l_status l)) (put_lead (ex_st (extract_reqs w_xs3 2 [2; 1] true [7; 7])))
+    = [(0, false, None); (2, true, Some 0)] /\
+  map (fun l => (l_id l, l_to_free l, l_status l)) (get_lead (ex_st (extract_reqs w_xs3 2 [2; 1] true [7; 7])))
+    = [(1, true, Some 1)].
+Proof. vm_compute. repeat split; reflexivity. Qed.
+
+(* an id that occurs twice, or names no pending request, makes the subset path fail *)
+Example w_xs3_subset_dup : ex_err (extract_reqs w_xs3 2 [2; 2] true [7; 7]) = NC_EINVAL_REQUEST /\
+                         ex_err (extract_reqs w_xs3 1 [4] true [7]) = NC_EINVAL_REQUEST.
+Proof. vm_compute. split; reflexivity. Qed.
+
+(* W4, ALL path *)
+Example w_xs3_all_hyps : nb_inv w_xs3 /\ NC_PUT_REQ_ALL < 0.
+Proof. split; [exact w_xs3_inv|unfold NC_PUT_REQ_ALL; lia]. Qed.
+
+(* W5, W6, W7: a wait that completes the second put only; the first put and the get stay *)
+Definition w_xwa : waitargs := mkwa 1 [2] true [7].
+Example w_xs3_wait_hyps :
+  nb_inv w_xs3 /\ wr_rc (fst (wait_one isort_reqs isort_segs w_xs3 w_xwa empty_disk)) = NC_NOERR /\
+  (forall l1, In l1 (put_lead (ex_st (extract_reqs w_xs3 (wa_n w_xwa) (wa_ids w_xwa) (wa_has_stat w_xwa) (wa_stat0 w_xwa))) ++
+                     get_lead (ex_st (extract_reqs w_xs3 (wa_n w_xwa) (wa_ids w_xwa) (wa_has_stat w_xwa) (wa_stat0 w_xwa)))) ->
+     l_id l1 = 0 -> l_to_free l1 = false) /\
+  map l_id (flagged (put_lead (ex_st (extract_reqs w_xs3 (wa_n w_xwa) (wa_ids w_xwa) (wa_has_stat w_xwa) (wa_stat0 w_xwa))))) = [2].
+Proof.
+  split; [exact w_xs3_inv|]. split; [vm_compute; reflexivity|]. split; [|vm_compute; reflexivity].
+  intros l1 Hin Hid.
+  w_lit (put_lead (ex_st (extract_reqs w_xs3 (wa_n w_xwa) (wa_ids w_xwa) (wa_has_stat w_xwa) (wa_stat0 w_xwa)))).
+  w_lit (get_lead (ex_st (extract_reqs w_xs3 (wa_n w_xwa) (wa_ids w_xwa) (wa_has_stat w_xwa) (wa_stat0 w_xwa)))).
+  cbn [app In] in Hin.
+  destruct Hin as [<-|[<-|[<-|[]]]]; cbn in Hid |- *; try reflexivity; discriminate Hid.
+Qed.
+
+Example w_xs3_wait_result :
+  map l_id (put_lead (wr_st (fst (wait_one isort_reqs isort_segs w_xs3 w_xwa empty_disk)))) = [0] /\
+  map l_id (get_lead (wr_st (fst (wait_one isort_reqs isort_segs w_xs3 w_xwa empty_disk)))) = [1] /\
+  wr_ev (fst (wait_one isort_reqs isort_segs w_xs3 w_xwa empty_disk)) = [EvPutDone 3] /\
+  nreqs (wr_st (fst (wait_one isort_reqs isort_segs w_xs3 w_xwa empty_disk))) = 2.
+Proof. vm_compute. repeat split; reflexivity. Qed.
+
+(* the theorems applied to the examples *)
+Example w_xs3_wait_inv : nb_inv (wr_st (fst (wait_one isort_reqs isort_segs w_xs3 w_xwa empty_disk))).
+Proof. apply wait_one_inv; apply w_xs3_wait_hyps. Qed.
+
+Example w_xs3_put_pairs :
+  Permutation
+    (flat_map areq_pairs (map (annotate (put_lead (ex_st (extract_reqs w_xs3 2 [2; 1] true [7; 7]))))
+                              (ex_put (extract_reqs w_xs3 2 [2; 1] true [7; 7]))))
+    (flat_map lead_pairs (flagged (put_lead (ex_st (extract_reqs w_xs3 2 [2; 1] true [7; 7]))))).
+Proof. apply wait_put_pairs; apply w_xs3_subset_hyps. Qed.
+
+(* why status_own is `_partial`: on the "same as NC_PUT_REQ_ALL" shortcut (no pending get, n = number
+   of pending puts) the status pointers are bound in QUEUE order and req_ids is not even read:
+   waiting for [2; 0] binds statuses[0] to request 0, and ids naming no request are accepted *)
+Definition w_xp2 : nbstate :=
+  fst (fst (post_varm w_xs1 KIput w_xg [2;0;0] [1;1;2] (Some [1;1;2]) 7000 [] false 3)).
+Example status_own_shortcut_counterexample :
+  nb_inv w_xp2 /\ ~ no_shortcut w_xp2 2 /\
+  ex_err (extract_reqs w_xp2 2 [2; 0] true [7; 7]) = NC_NOERR /\
+  map (fun l => (l_id l, l_to_free l, l_status l)) (put_lead (ex_st (extract_reqs w_xp2 2 [2; 0] true [7; 7])))
+    = [(0, true, Some 0); (2, true, Some 1)] /\
+  ex_err (extract_reqs w_xp2 2 [8; 8] true [7; 7]) = NC_NOERR /\
+  ex_ids (extract_reqs w_xp2 2 [8; 8] true [7; 7]) = [NC_REQ_NULL; NC_REQ_NULL].
+Proof.
+  split.
+  { unfold nb_inv, queue_inv.
+    w_lit (put_lead w_xp2). w_lit (put_reqs w_xp2). w_lit (get_lead w_xp2). w_lit (get_reqs w_xp2).
+    w_lit (maxPutID w_xp2). w_lit (maxGetID w_xp2). w_conc. }
+  split.
+  { unfold no_shortcut. intros (H & _). apply H. vm_compute. split; reflexivity. }
+  vm_compute. repeat split; reflexivity.
+Qed.
+
+
+Print Assumptions extract_leads_same.
+Print Assumptions extract_put_slices.
+Print Assumptions extract_get_slices.
+Print Assumptions wait_put_pairs.
+Print Assumptions wait_get_pairs.
+Print Assumptions extract_all_flags.
+Print Assumptions subset_flags_gen.
+Print Assumptions status_own_partial.
+Print Assumptions subset_ids_reset_gen.
+Print Assumptions subset_statuses.
+Print Assumptions subset_ids_pending.
+Print Assumptions wait_one_inv.
+Print Assumptions extract_mid_inv.
+Print Assumptions wait_subset_frame_partial.
+Print Assumptions wait_nreqs.
+Print Assumptions wait_completed_gone.
+Print Assumptions wait_events_put.
+Print Assumptions wait_events_get.
+Print Assumptions w_xs3_inv.
